@@ -14,13 +14,15 @@ all binary64) times, recordings of any length and any positive sample width.
 
 | clause | theorem(s) |
 |---|---|
-| keep list | `keep_spec` (the empty list included), `keep_empty_regression`, `window_eq_getFrames`, `window_samples` |
+| order of the lists | `readFramesAtTimes_perm`, `computeKeepDelete_perm`, `invert_perm`, `sortIv_sortedDisjoint` (the lists may be given in any order) |
+| keep list | `keep_spec` (any order, the empty list included), `keep_empty_regression`, `read_window`, `window_eq_getFrames`, `window_samples` |
 | delete list | `invert_eq_complement`, `complement_spec`, `delete_spec`, `delete_eq_keep_complement` |
-| replacement | `replace_keep`, `replace_delete` (original length, kept samples at their original position) |
-| rejection | `both_lists_rejected`, `out_of_range_rejected` (both bounds), `negative_time_regression` |
+| replacement | `replace_keep`, `replace_delete` (original length, kept samples at their original position; the duration need not be a sample position) |
+| rejection | `both_lists_rejected`, `out_of_range_rejected` (both bounds, any order), `nonpositive_interval_rejected`, `negative_time_regression` |
+| not rejected (disjointness is assumed, not enforced) | `overlap_keep_counterexample`, `nested_delete_counterexample`, `nested_out_of_range_counterexample` |
 | generators | `silence_length`, `silence_zero`, `sine_length` |
-| extractSubwav | `extract_spec` |
-| splitAudioOnTier | `split_length`, `split_names_nodup`, `split_frames`, `split_tg_span` |
+| extractSubwav | `extract_spec`, `extract_outside`, `extract_eq_getSubwav` |
+| splitAudioOnTier | `split_one_per_entry`, `split_names_nodup`, `split_frames`, `split_entries_inside`, `split_entry_outside`, `split_tg_span`, `split_tg_label` |
 -/
 open Audio Extract
 namespace C17
@@ -204,22 +206,148 @@ theorem tiling_perm (inner : Bool) (a : Int) (L : List (Int × Int)) (b : Int) :
   rw [← tiling_filter_inner inner a L b, ← tiling_filter_outer inner a L b]
   exact List.filter_append_perm _ _
 
-/-- **the sorted list of marked intervals is the time-ordered tiling** (keep list given) -/
-theorem sortMarked_keep (a : Int) (L : List (Int × Int)) (b : Int) (h : InChain a L b) :
-    sortMarked L (complement a L b) = tiling true a L b := by
+/-- **the sorted list of marked intervals is the time-ordered tiling** (keep list given): whatever the order in
+which the kept intervals `K` (the members of the chain `L`) and the gaps `G` are handed to `sorted` -/
+theorem sortMarked_keep (a : Int) (L : List (Int × Int)) (b : Int) (h : InChain a L b)
+    (K G : List (Int × Int)) (hK : K.Perm L) (hG : G.Perm (complement a L b)) :
+    sortMarked K G = tiling true a L b := by
   unfold sortMarked
   rw [markKeep_eq, markDelete_eq]
-  exact mergeSort_eq_of_sorted_perm _ _ (tiling_perm true a L b) (tiling_tiles true a L b h).sorted
+  exact mergeSort_eq_of_sorted_perm _ _ (((hK.map _).append (hG.map _)).trans (tiling_perm true a L b))
+    (tiling_tiles true a L b h).sorted
 
 /-- … (delete list given) -/
-theorem sortMarked_delete (a : Int) (L : List (Int × Int)) (b : Int) (h : InChain a L b) :
-    sortMarked (complement a L b) L = tiling false a L b := by
+theorem sortMarked_delete (a : Int) (L : List (Int × Int)) (b : Int) (h : InChain a L b)
+    (G D : List (Int × Int)) (hG : G.Perm (complement a L b)) (hD : D.Perm L) :
+    sortMarked G D = tiling false a L b := by
   unfold sortMarked
   rw [markKeep_eq, markDelete_eq]
   refine mergeSort_eq_of_sorted_perm _ _ ?_ (tiling_tiles false a L b h).sorted
-  exact List.perm_append_comm.trans (tiling_perm false a L b)
+  exact ((hG.map _).append (hD.map _)).trans (List.perm_append_comm.trans (tiling_perm false a L b))
 
-/-! ## 3. `invertIntervalList` on a chain is the complement -/
+/-- the marked list depends only on the members of the two lists, not on their order (`sorted` of tuples is a
+total order without ties between different tuples) -/
+theorem sortMarked_perm {K K' D D' : List (Int × Int)} (hK : K.Perm K') (hD : D.Perm D') :
+    sortMarked K D = sortMarked K' D' := by
+  unfold sortMarked
+  exact mergeSort_eq_of_sorted_perm _ _
+    (((hK.map _).append (hD.map _)).trans (List.mergeSort_perm _ _).symm)
+    (List.pairwise_mergeSort (fun a b c => le_trans a b c) le_total _)
+
+/-! ## 3. the order in which the intervals are given does not matter
+
+`utils.invertIntervalList` sorts its input and `_computeKeepDeleteIntervals` sorts the marked intervals, so every
+result below depends only on the *members* of the keep / delete list.  A list of pairwise disjoint intervals in any
+order (`DisjointIn`) is therefore treated like its time-ordered arrangement `sortIv`. -/
+
+theorem pairLe_iff (a b : Int × Int) : pairLe a b = true ↔ a.1 < b.1 ∨ (a.1 = b.1 ∧ a.2 ≤ b.2) := by
+  simp only [pairLe]
+  by_cases h1 : a.1 < b.1
+  · simp [h1]
+  · by_cases h2 : b.1 < a.1
+    · simp [h1, h2]; omega
+    · simp [h1, h2]; omega
+
+theorem pairLe_trans (a b c : Int × Int) (h1 : pairLe a b = true) (h2 : pairLe b c = true) : pairLe a c = true := by
+  rw [pairLe_iff] at *; omega
+
+theorem pairLe_total (a b : Int × Int) : (pairLe a b || pairLe b a) = true := by
+  rw [Bool.or_eq_true, pairLe_iff, pairLe_iff]; omega
+
+theorem pairLe_antisymm (a b : Int × Int) (h1 : pairLe a b = true) (h2 : pairLe b a = true) : a = b := by
+  rw [pairLe_iff] at h1 h2
+  exact Prod.ext (by omega) (by omega)
+
+/-- the intervals in time order: Python's `sorted` on `(start, end)` tuples -/
+def sortIv (L : List (Int × Int)) : List (Int × Int) := L.mergeSort pairLe
+
+theorem sortIv_perm (L : List (Int × Int)) : (sortIv L).Perm L := List.mergeSort_perm L pairLe
+
+theorem sortIv_sorted (L : List (Int × Int)) : (sortIv L).Pairwise (fun a b => pairLe a b = true) :=
+  List.pairwise_mergeSort (fun a b c => pairLe_trans a b c) pairLe_total L
+
+theorem sortIv_nil : sortIv [] = [] := by simp [sortIv]
+
+theorem sortIv_ne_nil {L : List (Int × Int)} (h : L ≠ []) : sortIv L ≠ [] := by
+  intro h0
+  have hl := (sortIv_perm L).length_eq
+  rw [h0] at hl
+  exact h (List.eq_nil_of_length_eq_zero hl.symm)
+
+theorem sortIv_eq_of_perm {L L' : List (Int × Int)} (h : L.Perm L') : sortIv L = sortIv L' := by
+  apply List.Perm.eq_of_pairwise (le := fun a b => pairLe a b = true)
+  · intro a b _ _ h1 h2; exact pairLe_antisymm a b h1 h2
+  · exact sortIv_sorted L
+  · exact sortIv_sorted L'
+  · exact ((sortIv_perm L).trans h).trans (sortIv_perm L').symm
+
+/-- a list that is already in time order (positive lengths, each interval ending before the next starts) is its
+own sorted arrangement -/
+theorem sortIv_of_sorted (L : List (Int × Int)) (hpos : ∀ p ∈ L, p.1 < p.2) (hpw : L.Pairwise (fun x y => x.2 ≤ y.1)) :
+    sortIv L = L :=
+  List.mergeSort_of_pairwise (C15.pairLe_of_chain _ hpos hpw)
+
+/-- `L` is a list of positive-length, pairwise disjoint (touching allowed) intervals inside `[lo, hi]`, **in any
+order** — the property's "list of disjoint intervals" -/
+def DisjointIn (L : List (Int × Int)) (lo hi : Int) : Prop :=
+  lo ≤ hi ∧ (∀ p ∈ L, p.1 < p.2 ∧ lo ≤ p.1 ∧ p.2 ≤ hi) ∧ L.Pairwise (fun x y => x.2 ≤ y.1 ∨ y.2 ≤ x.1)
+
+instance (L : List (Int × Int)) (lo hi : Int) : Decidable (DisjointIn L lo hi) :=
+  inferInstanceAs (Decidable (_ ∧ _ ∧ _))
+
+theorem disjointIn_of_sortedDisjoint (L : List (Int × Int)) (lo hi : Int) (h : SortedDisjoint L lo hi) :
+    DisjointIn L lo hi :=
+  ⟨h.1, h.2.1, h.2.2.imp (fun h => Or.inl h)⟩
+
+/-- sorting pairwise disjoint intervals of positive length puts each one before the start of the next -/
+theorem sortIv_chain (L : List (Int × Int)) (hpos : ∀ p ∈ L, p.1 < p.2)
+    (hd : L.Pairwise (fun x y => x.2 ≤ y.1 ∨ y.2 ≤ x.1)) : (sortIv L).Pairwise (fun x y => x.2 ≤ y.1) := by
+  have hd' : (sortIv L).Pairwise (fun x y => x.2 ≤ y.1 ∨ y.2 ≤ x.1) :=
+    (List.Perm.pairwise_iff (fun h => h.symm) (sortIv_perm L)).2 hd
+  refine List.Pairwise.imp_of_mem ?_ (hd'.and (sortIv_sorted L))
+  intro x y hx hy h
+  obtain ⟨h1, h2⟩ := h
+  have := hpos x ((sortIv_perm L).mem_iff.1 hx)
+  have := hpos y ((sortIv_perm L).mem_iff.1 hy)
+  rw [pairLe_iff] at h2
+  omega
+
+/-- **a list of disjoint intervals in any order, sorted, is a sorted disjoint list** -/
+theorem sortIv_sortedDisjoint (L : List (Int × Int)) (lo hi : Int) (h : DisjointIn L lo hi) :
+    SortedDisjoint (sortIv L) lo hi :=
+  ⟨h.1, fun p hp => h.2.1 p ((sortIv_perm L).mem_iff.1 hp), sortIv_chain L (fun p hp => (h.2.1 p hp).1) h.2.2⟩
+
+/-- `utils.invertIntervalList` depends only on the members of its input (it sorts first) -/
+theorem invert_perm {L L' : List (Int × Int)} (h : L.Perm L') (lo hi : Option Int) :
+    invertIntervalList L lo hi = invertIntervalList L' lo hi := by
+  have hs : L.mergeSort pairLe = L'.mergeSort pairLe := sortIv_eq_of_perm h
+  unfold invertIntervalList
+  rw [h.any_eq, hs]
+
+/-- **`_computeKeepDeleteIntervals` depends only on the members of the keep list and of the delete list** -/
+theorem computeKeepDelete_perm (a b : Int) {K K' D D' : List (Int × Int)} (hK : K.Perm K') (hD : D.Perm D') :
+    computeKeepDelete a b (some K) D = computeKeepDelete a b (some K') D' := by
+  have e1 : ∀ kk, sortMarked kk D = sortMarked kk D' := fun kk => sortMarked_perm (List.Perm.refl _) hD
+  have e2 : ∀ d, sortMarked K d = sortMarked K' d := fun d => sortMarked_perm hK (List.Perm.refl _)
+  unfold computeKeepDelete
+  simp only [Option.getD_some, Option.isNone_some, hK.isEmpty_eq, hD.isEmpty_eq, invert_perm hD, invert_perm hK, e1, e2]
+
+theorem computeKeepDelete_perm_none (a b : Int) {D D' : List (Int × Int)} (hD : D.Perm D') :
+    computeKeepDelete a b none D = computeKeepDelete a b none D' := by
+  have e1 : ∀ kk, sortMarked kk D = sortMarked kk D' := fun kk => sortMarked_perm (List.Perm.refl _) hD
+  unfold computeKeepDelete
+  simp only [Option.getD_none, hD.isEmpty_eq, invert_perm hD, e1]
+
+/-- **`readFramesAtTimes` depends only on the members of the keep list and of the delete list** -/
+theorem readFramesAtTimes_perm (den : Nat) (f : WavFile) (dur : Int) (gen : Option (Int → List UInt8))
+    {K K' D D' : List (Int × Int)} (hK : K.Perm K') (hD : D.Perm D') :
+    readFramesAtTimes den f dur (some K) D gen = readFramesAtTimes den f dur (some K') D' gen ∧
+    readFramesAtTimes den f dur none D gen = readFramesAtTimes den f dur none D' gen := by
+  unfold readFramesAtTimes
+  rw [computeKeepDelete_perm 0 dur hK hD, computeKeepDelete_perm_none 0 dur hD]
+  exact ⟨rfl, rfl⟩
+
+/-! ## 3b. `invertIntervalList` on a chain is the complement -/
 
 /-- end of the last interval of `(_, e) :: L` -/
 def lastEnd : Int → List (Int × Int) → Int
@@ -271,7 +399,7 @@ theorem chain_pairwise : ∀ (a : Int) (L : List (Int × Int)) (b : Int), InChai
 
 /-- **`utils.invertIntervalList` on sorted disjoint intervals inside `[a, b]` returns exactly the gaps**, in
 order: nothing for touching neighbours, nothing before an interval starting at `a` or after one ending at `b` -/
-theorem invert_eq_complement (a : Int) (L : List (Int × Int)) (b : Int) (h : InChain a L b) (hne : L ≠ []) :
+theorem invert_eq_complement_sorted (a : Int) (L : List (Int × Int)) (b : Int) (h : InChain a L b) (hne : L ≠ []) :
     invertIntervalList L (some a) (some b) = .ok (complement a L b) := by
   obtain ⟨f, rest, rfl⟩ : ∃ f rest, L = f :: rest := by
     cases L with
@@ -300,6 +428,25 @@ theorem invert_eq_complement (a : Int) (L : List (Int × Int)) (b : Int) (h : In
     unfold complement
     rw [if_neg haf]
     exact this
+
+/-- **`utils.invertIntervalList` on disjoint intervals inside `[a, b]`, given in any order, returns exactly the gaps**
+of the time-ordered arrangement, in order — also for the empty list on a span of positive length (the one gap
+`(a, b)`).  What is left out, the empty list on the empty span `a = b`, returns the zero-length piece `(a, a)`:
+`marked_keep_degenerate`. -/
+theorem invert_eq_complement (a : Int) (L : List (Int × Int)) (b : Int) (h : DisjointIn L a b) (hne : L ≠ [] ∨ a < b) :
+    invertIntervalList L (some a) (some b) = .ok (complement a (sortIv L) b) := by
+  rw [invert_perm (sortIv_perm L).symm]
+  by_cases hL : L = []
+  · subst hL
+    have hab : a < b := by
+      rcases hne with h | h
+      · exact absurd rfl h
+      · exact h
+    rw [sortIv_nil, C15.invert_empty]
+    unfold complement
+    rw [if_pos hab]
+  · exact invert_eq_complement_sorted a _ b (inChain_of_sortedDisjoint _ _ _ (sortIv_sortedDisjoint L a b h))
+      (sortIv_ne_nil hL)
 
 /-- **the complement is what it should be**: its pieces have positive length, lie in `[a, b]`, are sorted and
 disjoint, and a time of `[a, b)` lies in exactly one of: an interval of `L`, a piece of the complement -/
@@ -405,8 +552,7 @@ theorem samplesIn_onGrid (den rate : Nat) (hden : 0 < den) (t m : Int) (h : (rat
     samplesIn den rate t = m := by
   unfold samplesIn; rw [h]; exact C16.roundHalfEven_exact m den hden
 
-theorem window_length (den : Nat) (f : WavFile) (p : Int × Int)
-    (_h1 : idx den f.rate p.1 ≤ idx den f.rate p.2) (h2 : idx den f.rate p.2 ≤ f.nframes) :
+theorem window_length (den : Nat) (f : WavFile) (p : Int × Int) (h2 : idx den f.rate p.2 ≤ f.nframes) :
     (window den f p).length = (idx den f.rate p.2 - idx den f.rate p.1) * f.width := by
   unfold window
   rw [List.length_take, List.length_drop]
@@ -415,54 +561,103 @@ theorem window_length (den : Nat) (f : WavFile) (p : Int × Int)
   rw [Nat.sub_mul]
   omega
 
-/-- **reading a kept stretch returns the bytes of the samples between the two nearest sample indices** —
-for every window `0 ≤ s ≤ e` whose end index is inside the file, on or off the sample grid -/
-theorem read_window (den : Nat) (hden : 0 < den) (f : WavFile) (s e : Int) (hs : 0 ≤ s) (hse : s ≤ e)
-    (he : idx den f.rate e ≤ f.nframes) :
-    readFramesAtTime f ⟨s, den⟩ ⟨e, den⟩ = .ok (window den f (s, e)) := by
-  have hA := idx_cast den f.rate hden s hs
-  have hB := idx_cast den f.rate hden e (by omega)
-  have hAB := idx_mono den f.rate hden s e hse
-  unfold readFramesAtTime window
-  show (f.readAt (samplesIn den f.rate s) (max (samplesIn den f.rate e - samplesIn den f.rate s) 0)) =
-    .ok ((f.data.drop (idx den f.rate s * f.width)).take ((idx den f.rate e - idx den f.rate s) * f.width))
-  rw [← hA, ← hB]
-  generalize idx den f.rate s = A at *
-  generalize idx den f.rate e = B at *
+/-- `setpos(a); readframes(max(b - a, 0))` for a position `a` of the file -/
+theorem readAt_window (f : WavFile) (a b : Int) (hs : 0 ≤ a) (hsn : a ≤ f.nframes) :
+    f.readAt a (max (b - a) 0) = .ok ((f.data.drop (a.toNat * f.width)).take ((b.toNat - a.toNat) * f.width)) := by
   unfold WavFile.readAt
   rw [if_neg (by omega)]
-  simp only [Int.toNat_natCast]
-  by_cases hle : B ≤ A
-  · have hm : max ((B : Int) - (A : Int)) 0 = 0 := by omega
-    have hz : B - A = 0 := by omega
+  by_cases hle : b ≤ a
+  · have hm : max (b - a) 0 = 0 := by omega
+    have hz : b.toNat - a.toNat = 0 := by omega
     simp [hm, hz]
-  · have hm : max ((B : Int) - (A : Int)) 0 = ((B - A : Nat) : Int) := by omega
-    have h1' : ¬ (B - A = 0) := by omega
-    have h2' : ¬ (((B - A : Nat) : Int) < 0) := by omega
+  · have hm : max (b - a) 0 = b - a := by omega
+    have h1' : ¬ (b - a = 0) := by omega
+    have h2' : ¬ (b - a < 0) := by omega
+    have h3' : (b - a).toNat = b.toNat - a.toNat := by omega
     rw [hm]
-    simp [h1', h2']
+    simp [h1', h2', h3']
 
-/-- the window is what `Wav.getFrames` returns for the same times on the recording loaded in memory
-(for a start inside the file) -/
-theorem window_eq_getFrames (den : Nat) (hden : 0 < den) (f : WavFile) (s e : Int) (hs : 0 ≤ s) (hse : s ≤ e)
-    (hsd : s * (f.rate : Int) ≤ (f.nframes : Int) * den) (he : idx den f.rate e ≤ f.nframes) :
+/-- **reading a stretch returns the bytes of the samples between the two nearest sample indices** — for every pair of
+times, on or off the sample grid, whose *start* index `round(rate·s)` is a position of the file (`0 … nframes`):
+a reversed pair (`e < s`) reads nothing, an end beyond the file is clamped to the end of the data (as `window` is).
+The other starts: `read_window_error`. -/
+theorem read_window (den : Nat) (f : WavFile) (s e : Int)
+    (hs : 0 ≤ samplesIn den f.rate s) (hsn : samplesIn den f.rate s ≤ f.nframes) :
+    readFramesAtTime f ⟨s, den⟩ ⟨e, den⟩ = .ok (window den f (s, e)) :=
+  readAt_window f _ _ hs hsn
+
+/-- a start whose sample index is negative or beyond the last position: `setpos` raises `wave.Error` -/
+theorem read_window_error (den : Nat) (f : WavFile) (s e : Int)
+    (h : samplesIn den f.rate s < 0 ∨ (f.nframes : Int) < samplesIn den f.rate s) :
+    readFramesAtTime f ⟨s, den⟩ ⟨e, den⟩ = .error .WaveError := by
+  unfold readFramesAtTime
+  show (f.readAt (samplesIn den f.rate s) _) = _
+  unfold WavFile.readAt
+  rw [if_pos h]
+
+/-- the form used below: a window `0 ≤ s ≤ e` whose end index is inside the file -/
+theorem read_window_in (den : Nat) (hden : 0 < den) (f : WavFile) (s e : Int) (hs : 0 ≤ s) (hse : s ≤ e)
+    (he : idx den f.rate e ≤ f.nframes) :
+    readFramesAtTime f ⟨s, den⟩ ⟨e, den⟩ = .ok (window den f (s, e)) := by
+  have hB := idx_cast den f.rate hden e (by omega)
+  have hAB := samplesIn_mono den f.rate hden s e hse
+  exact read_window den f s e (samplesIn_nonneg den f.rate hden s hs) (by omega)
+
+theorem take_min_drop_min {β} (l : List β) (x y : Nat) :
+    (l.take (min y l.length)).drop (min x l.length) = (l.drop x).take (y - x) := by
+  have ht : l.take (min y l.length) = l.take y := by
+    by_cases h : y ≤ l.length
+    · rw [Nat.min_eq_left h]
+    · rw [Nat.min_eq_right (by omega), List.take_length, List.take_of_length_le (by omega)]
+  rw [ht]
+  by_cases hx : x ≤ l.length
+  · rw [Nat.min_eq_left hx, List.drop_take]
+  · rw [Nat.min_eq_right (by omega), List.drop_eq_nil_of_le (by rw [List.length_take]; omega),
+      List.drop_eq_nil_of_le (by omega), List.take_nil]
+
+/-- the Python slice `frames[a*w : b*w]` for non-negative sample indices -/
+theorem getB_window (data : List UInt8) (w : Nat) (a b : Int) (hs : 0 ≤ a) (he : 0 ≤ b) :
+    getB data (a * w) (b * w) = (data.drop (a.toNat * w)).take ((b.toNat - a.toNat) * w) := by
+  have ha : a * (w : Int) = ((a.toNat * w : Nat) : Int) := by
+    rw [Int.natCast_mul, Int.toNat_of_nonneg hs]
+  have hb : b * (w : Int) = ((b.toNat * w : Nat) : Int) := by
+    rw [Int.natCast_mul, Int.toNat_of_nonneg he]
+  unfold getB slice
+  rw [ha, hb]
+  unfold pyClamp
+  rw [if_neg (by omega), if_neg (by omega), Int.toNat_natCast, Int.toNat_natCast, take_min_drop_min, Nat.sub_mul]
+
+/-- the window is what `Wav.getFrames` returns for the same times on the recording loaded in memory — for all times
+whose sample indices are not negative (a negative index makes the in-memory slice count from the end: C16's domain),
+reversed or beyond the end included -/
+theorem window_eq_getFrames (den : Nat) (f : WavFile) (s e : Int)
+    (hs : 0 ≤ samplesIn den f.rate s) (he : 0 ≤ samplesIn den f.rate e) :
     window den f (s, e) = Wav.getFrames ⟨f.width, f.rate, f.data⟩ ⟨s, den⟩ ⟨e, den⟩ := by
-  have h1 := read_window den hden f s e hs hse he
-  have h2 := C16.query_eq_wav f ⟨s, den⟩ ⟨e, den⟩ hden hden hs hsd (by show (0 : Int) ≤ e; omega)
-  rw [h1] at h2
-  exact Except.ok.inj h2
+  have e1 : sampleAtTime ⟨s, den⟩ f.rate = samplesIn den f.rate s := by
+    unfold sampleAtTime samplesIn; rw [Int.mul_comm]
+  have e2 : sampleAtTime ⟨e, den⟩ f.rate = samplesIn den f.rate e := by
+    unfold sampleAtTime samplesIn; rw [Int.mul_comm]
+  unfold Wav.getFrames Wav.index indexAtTime
+  simp only [e1, e2]
+  rw [getB_window _ _ _ _ hs he]
+  rfl
 
-/-- at sample level: the window holds the samples `[round(rate·s), round(rate·e))` of the recording -/
-theorem window_samples (den : Nat) (f : WavFile) (hw : 0 < f.width) (p : Int × Int)
-    (h1 : idx den f.rate p.1 ≤ idx den f.rate p.2) (h2 : idx den f.rate p.2 ≤ f.nframes) :
+/-- at sample level: the window holds the samples `[round(rate·s), round(rate·e))` of the recording (an end index
+inside the file: enforced for every interval of a keep / delete list, `out_of_range_rejected`) -/
+theorem window_samples (den : Nat) (f : WavFile) (hw : 0 < f.width) (p : Int × Int) (h2 : idx den f.rate p.2 ≤ f.nframes) :
     unpack f.width (window den f p) =
       ((unpack f.width f.data).drop (idx den f.rate p.1)).take (idx den f.rate p.2 - idx den f.rate p.1) := by
-  have hlen : f.nframes * f.width ≤ f.data.length := Nat.div_mul_le_self _ _
-  have hA : idx den f.rate p.1 * f.width ≤ f.data.length :=
-    Nat.le_trans (Nat.mul_le_mul_right _ (Nat.le_trans h1 h2)) hlen
-  have hB : idx den f.rate p.2 * f.width ≤ f.data.length := Nat.le_trans (Nat.mul_le_mul_right _ h2) hlen
-  unfold window
-  rw [C16.unpack_take _ _ hw _ (by rw [List.length_drop, Nat.sub_mul]; omega), C16.unpack_drop _ _ hw _ hA]
+  by_cases h1 : idx den f.rate p.1 ≤ idx den f.rate p.2
+  · have hlen : f.nframes * f.width ≤ f.data.length := Nat.div_mul_le_self _ _
+    have hA : idx den f.rate p.1 * f.width ≤ f.data.length :=
+      Nat.le_trans (Nat.mul_le_mul_right _ (Nat.le_trans h1 h2)) hlen
+    have hB : idx den f.rate p.2 * f.width ≤ f.data.length := Nat.le_trans (Nat.mul_le_mul_right _ h2) hlen
+    unfold window
+    rw [C16.unpack_take _ _ hw _ (by rw [List.length_drop, Nat.sub_mul]; omega), C16.unpack_drop _ _ hw _ hA]
+  · have hz : idx den f.rate p.2 - idx den f.rate p.1 = 0 := by omega
+    unfold window
+    rw [hz]
+    simp [unpack, unpackN]
 
 /-! ## 5. assembling the result -/
 
@@ -487,7 +682,7 @@ theorem assemble_keeps (den : Nat) (hden : 0 < den) (f : WavFile) (gen : Option 
     obtain ⟨h1, h2, h3⟩ := h p (by simp)
     have ih := assemble_keeps den hden f gen rest (fun q hq => h q (List.mem_cons_of_mem _ hq))
     simp only [List.map_cons, assemble, mk, if_true]
-    rw [read_window den hden f p.1 p.2 h1 h2 h3, ih]
+    rw [read_window_in den hden f p.1 p.2 h1 h2 h3, ih]
     simp [List.flatMap_cons]
 
 /-! ## 6. `_computeKeepDeleteIntervals` on well-formed lists: the time-ordered tiling -/
@@ -499,7 +694,7 @@ theorem isEmpty_false {β} (l : List β) (h : l ≠ []) : l.isEmpty = false := b
 
 /-- **keep list** (possibly empty — then nothing is kept): the marked intervals are, in time order, the given
 intervals labelled `keep` and the gaps of `[start, stop]` labelled `delete`; touching intervals produce no empty piece -/
-theorem marked_keep (a b : Int) (K : List (Int × Int)) (h : InChain a K b) (hne : K ≠ [] ∨ a < b) :
+theorem marked_keep_sorted (a b : Int) (K : List (Int × Int)) (h : InChain a K b) (hne : K ≠ [] ∨ a < b) :
     computeKeepDelete a b (some K) [] = .ok (tiling true a K b) := by
   by_cases hK : K = []
   · subst hK
@@ -518,9 +713,9 @@ theorem marked_keep (a b : Int) (K : List (Int × Int)) (h : InChain a K b) (hne
   · unfold computeKeepDelete
     simp only [Option.getD_some, isEmpty_false K hK, List.isEmpty_nil, Bool.not_false, Bool.not_true, Bool.and_false,
       Bool.false_and, Option.isNone_some, Bool.false_eq_true, if_false]
-    rw [invert_eq_complement a K b h hK]
+    rw [invert_eq_complement_sorted a K b h hK]
     simp only
-    rw [sortMarked_keep a K b h]
+    rw [sortMarked_keep a K b h _ _ (List.Perm.refl _) (List.Perm.refl _)]
 
 /-- the degenerate case: an empty keep list on an empty span -/
 theorem marked_keep_degenerate (a : Int) : computeKeepDelete a a (some []) [] = .ok [⟨a, a, false⟩] := by
@@ -533,36 +728,76 @@ theorem marked_keep_degenerate (a : Int) : computeKeepDelete a a (some []) [] = 
   simp [markDelete]
 
 /-- **delete list** (no keep list, or an empty one): the given intervals labelled `delete`, the gaps labelled `keep` -/
-theorem marked_delete (a b : Int) (keep : Option (List (Int × Int))) (hk : keep.getD [] = [])
+theorem marked_delete_sorted (a b : Int) (keep : Option (List (Int × Int))) (hk : keep.getD [] = [])
     (D : List (Int × Int)) (h : InChain a D b) (hne : D ≠ []) :
     computeKeepDelete a b keep D = .ok (tiling false a D b) := by
   unfold computeKeepDelete
   simp only [hk, isEmpty_false D hne, List.isEmpty_nil, Bool.not_false, Bool.not_true, Bool.and_false,
     Bool.and_true, Bool.false_eq_true, if_false, if_true]
-  rw [invert_eq_complement a D b h hne]
+  rw [invert_eq_complement_sorted a D b h hne]
   simp only
-  rw [sortMarked_delete a D b h]
+  rw [sortMarked_delete a D b h _ _ (List.Perm.refl _) (List.Perm.refl _)]
 
 /-- no keep list and no (or an empty) delete list: everything is kept -/
 theorem marked_none (a b : Int) : computeKeepDelete a b none [] = .ok [⟨a, b, true⟩] := by
   unfold computeKeepDelete sortMarked
   simp [markKeep]
 
-/-- the partition statement of the design: for a well-formed keep (delete) list the result tiles `[start, stop]`
-in time order with pieces of positive length, the given intervals carry the list's label, the gaps the other one -/
-theorem keepdelete_partition (a b : Int) (L : List (Int × Int)) (h : SortedDisjoint L a b) (hne : L ≠ []) :
+/-- **keep list, any order** (possibly empty — then nothing is kept): the marked intervals are, in time order, the
+given intervals labelled `keep` and the gaps of `[start, stop]` labelled `delete`; touching intervals produce no empty
+piece.  (The empty list on an empty span: `marked_keep_degenerate`.) -/
+theorem marked_keep (a b : Int) (K : List (Int × Int)) (h : DisjointIn K a b) (hne : K ≠ [] ∨ a < b) :
+    computeKeepDelete a b (some K) [] = .ok (tiling true a (sortIv K) b) := by
+  rw [computeKeepDelete_perm a b (sortIv_perm K).symm (List.Perm.refl [])]
+  exact marked_keep_sorted a b _ (inChain_of_sortedDisjoint _ _ _ (sortIv_sortedDisjoint K a b h))
+    (hne.imp sortIv_ne_nil id)
+
+/-- **delete list, any order** (no keep list, or an empty one): the given intervals labelled `delete`, the gaps
+labelled `keep`.  (A non-empty keep list as well: `both_lists_rejected`; an empty delete list: `marked_none`,
+`marked_keep`.) -/
+theorem marked_delete (a b : Int) (keep : Option (List (Int × Int))) (hk : keep.getD [] = [])
+    (D : List (Int × Int)) (h : DisjointIn D a b) (hne : D ≠ []) :
+    computeKeepDelete a b keep D = .ok (tiling false a (sortIv D) b) := by
+  have hc := inChain_of_sortedDisjoint _ _ _ (sortIv_sortedDisjoint D a b h)
+  have key := marked_delete_sorted a b keep hk (sortIv D) hc (sortIv_ne_nil hne)
+  rw [← key]
+  cases keep with
+  | none => exact computeKeepDelete_perm_none a b (sortIv_perm D).symm
+  | some K => exact computeKeepDelete_perm a b (List.Perm.refl K) (sortIv_perm D).symm
+
+/-- delete list without a keep list, the empty delete list included when the span has positive length -/
+theorem marked_delete_none (a b : Int) (D : List (Int × Int)) (h : DisjointIn D a b) (hne : D ≠ [] ∨ a < b) :
+    computeKeepDelete a b none D = .ok (tiling false a (sortIv D) b) := by
+  by_cases hL : D = []
+  · subst hL
+    have hab : a < b := by
+      rcases hne with h | h
+      · exact absurd rfl h
+      · exact h
+    rw [marked_none, sortIv_nil]
+    unfold tiling
+    rw [if_pos hab]; rfl
+  · exact marked_delete a b none rfl D h hL
+
+/-- the partition statement of the design: for a keep (delete) list of disjoint intervals inside `[start, stop]`, in
+any order, the result tiles `[start, stop]` in time order with pieces of positive length, the given intervals carry
+the list's label, the gaps the other one.  The empty list is included when the span has positive length (for the
+empty span see `marked_keep_degenerate`: the one piece then has length zero). -/
+theorem keepdelete_partition (a b : Int) (L : List (Int × Int)) (h : DisjointIn L a b) (hne : L ≠ [] ∨ a < b) :
     (∃ ms, computeKeepDelete a b (some L) [] = .ok ms ∧ Tiles a ms b ∧
-        ms.filter (fun m => m.keep) = L.map markKeep ∧ ms.filter (fun m => !m.keep) = (complement a L b).map markDelete) ∧
+        ms.filter (fun m => m.keep) = (sortIv L).map markKeep ∧
+        ms.filter (fun m => !m.keep) = (complement a (sortIv L) b).map markDelete) ∧
     (∃ ms, computeKeepDelete a b none L = .ok ms ∧ Tiles a ms b ∧
-        ms.filter (fun m => !m.keep) = L.map markDelete ∧ ms.filter (fun m => m.keep) = (complement a L b).map markKeep) := by
-  have hc := inChain_of_sortedDisjoint L a b h
+        ms.filter (fun m => !m.keep) = (sortIv L).map markDelete ∧
+        ms.filter (fun m => m.keep) = (complement a (sortIv L) b).map markKeep) := by
+  have hc := inChain_of_sortedDisjoint _ a b (sortIv_sortedDisjoint L a b h)
   rw [markKeep_eq, markDelete_eq]
-  refine ⟨⟨_, marked_keep a b L hc (Or.inl hne), tiling_tiles true a L b hc, ?_, ?_⟩,
-    ⟨_, marked_delete a b none rfl L hc hne, tiling_tiles false a L b hc, ?_, ?_⟩⟩
-  · have := tiling_filter_inner true a L b; simpa using this
-  · have := tiling_filter_outer true a L b; simpa using this
-  · have := tiling_filter_inner false a L b; simpa using this
-  · have := tiling_filter_outer false a L b; simpa using this
+  refine ⟨⟨_, marked_keep a b L h hne, tiling_tiles true a _ b hc, ?_, ?_⟩,
+    ⟨_, marked_delete_none a b L h hne, tiling_tiles false a _ b hc, ?_, ?_⟩⟩
+  · have := tiling_filter_inner true a (sortIv L) b; simpa using this
+  · have := tiling_filter_outer true a (sortIv L) b; simpa using this
+  · have := tiling_filter_inner false a (sortIv L) b; simpa using this
+  · have := tiling_filter_outer false a (sortIv L) b; simpa using this
 
 theorem checkBounds_tiles (a b : Int) (ms : List Marked) (h : Tiles a ms b) (hne : ms ≠ []) (ha : 0 ≤ a) :
     checkBounds b ms = .ok () := by
@@ -607,22 +842,26 @@ theorem tiling_ne_nil (inner : Bool) (a b : Int) (L : List (Int × Int)) (hne : 
 /-! ## 7. keep list, delete list (no replacement) -/
 
 /-- what is assumed of the duration handed to `_computeKeepDeleteIntervals`: it is not negative and its sample
-index is the frame count (true of `nframes / float(frameRate)`, and of the exact quotient) -/
+index is the frame count (true of `nframes / float(frameRate)`, and of the exact quotient).  Not a condition on the
+caller's input: `dur` stands for a value the code computes itself from the file header, and the binary64 quotient
+satisfies both parts for every frame count below `2^52` (its relative error is at most `2⁻⁵³`, so
+`|rate · dur − nframes| < 1/2`: `DurNear`); the differential runs compare the value bit for bit.  Likewise `0 < den` in
+the theorems below is the invariant of the representation (times are numerators over a common positive denominator),
+not a condition on the times. -/
 def DurOk (den : Nat) (f : WavFile) (dur : Int) : Prop := 0 ≤ dur ∧ samplesIn den f.rate dur = f.nframes
 instance (den : Nat) (f : WavFile) (dur : Int) : Decidable (DurOk den f dur) := inferInstanceAs (Decidable (_ ∧ _))
 
 theorem idx_dur (den : Nat) (f : WavFile) (dur : Int) (h : DurOk den f dur) : idx den f.rate dur = f.nframes := by
   unfold idx; rw [h.2]; rfl
 
-/-- **keep_spec**: for every sorted disjoint keep list inside `[0, duration]` — the empty list included: then
-nothing is kept — the result is the concatenation, in order, of the windows of the kept intervals -/
-theorem keep_spec (den : Nat) (hden : 0 < den) (f : WavFile) (dur : Int) (hdur : DurOk den f dur)
+/-- `keep_spec` for a list given in time order -/
+theorem keep_spec_sorted (den : Nat) (hden : 0 < den) (f : WavFile) (dur : Int) (hdur : DurOk den f dur)
     (K : List (Int × Int)) (hK : SortedDisjoint K 0 dur) :
     readFramesAtTimes den f dur (some K) [] none = .ok (K.flatMap (window den f)) := by
   have hc := inChain_of_sortedDisjoint K 0 dur hK
   by_cases hne : K ≠ [] ∨ 0 < dur
   · unfold readFramesAtTimes
-    rw [marked_keep 0 dur K hc hne]
+    rw [marked_keep_sorted 0 dur K hc hne]
     simp only
     rw [checkBounds_tiles 0 dur _ (tiling_tiles true 0 K dur hc) (tiling_ne_nil true 0 dur K hne) (Int.le_refl _)]
     simp only
@@ -647,10 +886,8 @@ theorem keep_spec (den : Nat) (hden : 0 < den) (f : WavFile) (dur : Int) (hdur :
     rw [marked_keep_degenerate]
     rfl
 
-/-- **delete_spec**: for every sorted disjoint delete list inside `[0, duration]` — empty, touching, starting at 0,
-ending at the duration, covering everything — the result is the concatenation, in order, of the windows of the
-complement (`complement_spec`: exactly the gaps) -/
-theorem delete_spec (den : Nat) (hden : 0 < den) (f : WavFile) (dur : Int) (hdur : DurOk den f dur)
+/-- `delete_spec` for a list given in time order -/
+theorem delete_spec_sorted (den : Nat) (hden : 0 < den) (f : WavFile) (dur : Int) (hdur : DurOk den f dur)
     (D : List (Int × Int)) (hD : SortedDisjoint D 0 dur) :
     readFramesAtTimes den f dur none D none = .ok ((complement 0 D dur).flatMap (window den f)) := by
   have hc := inChain_of_sortedDisjoint D 0 dur hD
@@ -686,7 +923,7 @@ theorem delete_spec (den : Nat) (hden : 0 < den) (f : WavFile) (dur : Int) (hdur
       rw [this]
       simp [window, idx_zero den f.rate hden]
   · unfold readFramesAtTimes
-    rw [marked_delete 0 dur none rfl D hc hne]
+    rw [marked_delete_sorted 0 dur none rfl D hc hne]
     simp only
     rw [checkBounds_tiles 0 dur _ (tiling_tiles false 0 D dur hc) (tiling_ne_nil false 0 dur D (Or.inl hne)) (Int.le_refl _)]
     simp only
@@ -698,19 +935,52 @@ theorem delete_spec (den : Nat) (hden : 0 < den) (f : WavFile) (dur : Int) (hdur
     rw [hf']
     exact hkeeps
 
+/-- **keep_spec**: for every keep list of disjoint intervals inside `[0, duration]`, **given in any order** — the
+empty list included: then nothing is kept — the result is the concatenation, in time order, of the windows of the
+kept intervals -/
+theorem keep_spec (den : Nat) (hden : 0 < den) (f : WavFile) (dur : Int) (hdur : DurOk den f dur)
+    (K : List (Int × Int)) (hK : DisjointIn K 0 dur) :
+    readFramesAtTimes den f dur (some K) [] none = .ok ((sortIv K).flatMap (window den f)) := by
+  rw [(readFramesAtTimes_perm den f dur none (sortIv_perm K).symm (List.Perm.refl [])).1]
+  exact keep_spec_sorted den hden f dur hdur _ (sortIv_sortedDisjoint K 0 dur hK)
+
+/-- **delete_spec**: for every delete list of disjoint intervals inside `[0, duration]`, **given in any order** —
+empty, touching, starting at 0, ending at the duration, covering everything — the result is the concatenation, in
+time order, of the windows of the complement (`complement_spec`: exactly the gaps) -/
+theorem delete_spec (den : Nat) (hden : 0 < den) (f : WavFile) (dur : Int) (hdur : DurOk den f dur)
+    (D : List (Int × Int)) (hD : DisjointIn D 0 dur) :
+    readFramesAtTimes den f dur none D none = .ok ((complement 0 (sortIv D) dur).flatMap (window den f)) := by
+  rw [(readFramesAtTimes_perm den f dur none (List.Perm.refl []) (sortIv_perm D).symm).2]
+  exact delete_spec_sorted den hden f dur hdur _ (sortIv_sortedDisjoint D 0 dur hD)
+
 /-- hence: **a delete list is the keep list of its complement** — also when nothing is left to keep -/
 theorem delete_eq_keep_complement (den : Nat) (hden : 0 < den) (f : WavFile) (dur : Int) (hdur : DurOk den f dur)
-    (D : List (Int × Int)) (hD : SortedDisjoint D 0 dur) :
-    readFramesAtTimes den f dur none D none = readFramesAtTimes den f dur (some (complement 0 D dur)) [] none := by
-  have hc := inChain_of_sortedDisjoint D 0 dur hD
+    (D : List (Int × Int)) (hD : DisjointIn D 0 dur) :
+    readFramesAtTimes den f dur none D none =
+      readFramesAtTimes den f dur (some (complement 0 (sortIv D) dur)) [] none := by
+  have hS := sortIv_sortedDisjoint D 0 dur hD
+  have hc := inChain_of_sortedDisjoint _ 0 dur hS
   rw [delete_spec den hden f dur hdur D hD,
-    keep_spec den hden f dur hdur _ (complement_spec 0 D dur hc).1]
+    keep_spec_sorted den hden f dur hdur _ (complement_spec 0 (sortIv D) dur hc).1]
 
 /-! ## 8. replacement: original length, every kept sample at its original position -/
 
 /-- the contract of a replacement generator: for the duration `d / den` it returns `round(rate · d)` samples -/
 def GenOk (den : Nat) (f : WavFile) (gen : Int → List UInt8) : Prop :=
   ∀ d, (gen d).length = (samplesIn den f.rate d).toNat * f.width
+
+/-- the dropped stretch `[s, e]` and what the generator returns for `e − s` have the same number of samples:
+`round(rate · (e − s))` is the difference of the two sample indices -/
+def SameCount (den rate : Nat) (s e : Int) : Prop :=
+  (samplesIn den rate (e - s)).toNat = idx den rate e - idx den rate s
+
+/-- the duration is nearer than half a sample to `nframes / rate`: `|rate · dur − nframes| < 1/2`.  True of the exact
+quotient and of the binary64 quotient `nframes / float(frameRate)` the code computes (whose relative error is at most
+`2⁻⁵³`), which in general is **not** on a sample position (`3 / 10.0 · 10 ≠ 3` exactly). -/
+def DurNear (den : Nat) (f : WavFile) (dur : Int) : Prop :=
+  2 * ((f.rate : Int) * dur - (f.nframes : Int) * den) < den ∧
+  -(den : Int) < 2 * ((f.rate : Int) * dur - (f.nframes : Int) * den)
+instance (den : Nat) (f : WavFile) (dur : Int) : Decidable (DurNear den f dur) := inferInstanceAs (Decidable (_ ∧ _))
 
 theorem tiling_forall (P : Int → Prop) (inner : Bool) : ∀ (a : Int) (L : List (Int × Int)) (b : Int),
     P a → P b → (∀ p ∈ L, P p.1 ∧ P p.2) → ∀ m ∈ tiling inner a L b, P m.s ∧ P m.e
@@ -731,22 +1001,45 @@ theorem tiling_forall (P : Int → Prop) (inner : Bool) : ∀ (a : Int) (L : Lis
       · exact tiling_forall P inner p.2 rest b hp2 hb (fun q hq => hL q (List.mem_cons_of_mem _ hq)) m hm
 
 theorem onGrid_sub (den rate : Nat) (hden : 0 < den) (s e : Int) (hs0 : 0 ≤ s) (hse : s ≤ e)
-    (hs : OnGrid den rate s) (he : OnGrid den rate e) :
-    (samplesIn den rate (e - s)).toNat = idx den rate e - idx den rate s := by
+    (hs : OnGrid den rate s) (he : OnGrid den rate e) : SameCount den rate s e := by
   obtain ⟨x, hx⟩ := hs
   obtain ⟨y, hy⟩ := he
   have hd : (rate : Int) * (e - s) = (y - x) * den := by rw [Int.mul_sub, Int.sub_mul, hx, hy]
   have h0 := samplesIn_nonneg den rate hden s hs0
   have h1 := samplesIn_mono den rate hden s e hse
-  unfold idx
+  unfold SameCount idx
   rw [samplesIn_onGrid den rate hden _ _ hd, samplesIn_onGrid den rate hden _ _ hx, samplesIn_onGrid den rate hden _ _ hy] at *
   omega
 
-/-- the general statement over a time-ordered tiling whose boundaries are sample positions: the assembled bytes
-have the length of the stretch `[a, b]`, and every kept piece sits at its own offset -/
+/-- the last dropped stretch ends at the duration, which need not be a sample position: it is enough that the
+stretch starts on one -/
+theorem sameCount_to_dur (den : Nat) (hden : 0 < den) (f : WavFile) (dur : Int) (hdur : DurOk den f dur)
+    (hnear : DurNear den f dur) (s : Int) (hs0 : 0 ≤ s) (hsd : s ≤ dur) (hs : OnGrid den f.rate s) :
+    SameCount den f.rate s dur := by
+  obtain ⟨x, hx⟩ := hs
+  have hsx : samplesIn den f.rate s = x := samplesIn_onGrid den f.rate hden s x hx
+  have hx0 : 0 ≤ x := by rw [← hsx]; exact samplesIn_nonneg den f.rate hden s hs0
+  have hmono := samplesIn_mono den f.rate hden s dur hsd
+  rw [hsx, hdur.2] at hmono
+  have key : samplesIn den f.rate (dur - s) = (f.nframes : Int) - x := by
+    unfold samplesIn
+    apply C16.roundHalfEven_unique _ den hden _ _ (C16.roundHalfEven_spec _ _ hden)
+    unfold C16.IsRoundHalfEven
+    have e1 : ((f.nframes : Int) - x) * (den : Int) = (f.nframes : Int) * den - x * den := Int.sub_mul _ _ _
+    have e2 : (f.rate : Int) * (dur - s) = (f.rate : Int) * dur - (f.rate : Int) * s := Int.mul_sub _ _ _
+    rw [e1, e2, hx]
+    obtain ⟨n1, n2⟩ := hnear
+    refine ⟨by omega, by omega, by omega⟩
+  unfold SameCount idx
+  rw [key, hsx, hdur.2]
+  omega
+
+/-- the general statement over a time-ordered tiling: when every dropped piece is replaced by as many samples as it
+spans (`SameCount`), the assembled bytes have the length of the stretch `[a, b]`, and every kept piece sits at its
+own offset -/
 theorem assemble_tiles (den : Nat) (hden : 0 < den) (f : WavFile) (gen : Int → List UInt8) (hgen : GenOk den f gen) :
     ∀ (ms : List Marked) (a b : Int), Tiles a ms b → 0 ≤ a → idx den f.rate b ≤ f.nframes →
-      (∀ m ∈ ms, OnGrid den f.rate m.s ∧ OnGrid den f.rate m.e) →
+      (∀ m ∈ ms, m.keep = false → SameCount den f.rate m.s m.e) →
       ∃ out, assemble den f (some gen) ms = .ok out ∧
         out.length = (idx den f.rate b - idx den f.rate a) * f.width ∧
         ∀ m ∈ ms, m.keep = true →
@@ -770,14 +1063,14 @@ theorem assemble_tiles (den : Nat) (hden : 0 < den) (f : WavFile) (gen : Int →
         (k0 = true → piece = window den f (s0, e0)) := by
       cases k0 with
       | true =>
-        refine ⟨window den f (s0, e0), ?_, window_length den f (s0, e0) hIae (Nat.le_trans hIeb hb), fun _ => rfl⟩
+        refine ⟨window den f (s0, e0), ?_, window_length den f (s0, e0) (Nat.le_trans hIeb hb), fun _ => rfl⟩
         simp only [assemble, if_true]
-        rw [read_window den hden f s0 e0 ha (by omega) (Nat.le_trans hIeb hb), e1]
+        rw [read_window_in den hden f s0 e0 ha (by omega) (Nat.le_trans hIeb hb), e1]
       | false =>
         refine ⟨gen (e0 - s0), ?_, ?_, fun h => by cases h⟩
         · simp only [assemble, Bool.false_eq_true, if_false, e1]
-        · obtain ⟨g1, g2⟩ := hgrid ⟨s0, e0, false⟩ (by simp)
-          rw [hgen, onGrid_sub den f.rate hden s0 e0 ha (by omega) g1 g2]
+        · have hsame : SameCount den f.rate s0 e0 := hgrid ⟨s0, e0, false⟩ (by simp) rfl
+          rw [hgen, hsame]
     refine ⟨piece ++ out', hpiece, ?_, ?_⟩
     · rw [List.length_append, hpl, len', ← Nat.add_mul]
       congr 1; omega
@@ -796,35 +1089,56 @@ theorem assemble_tiles (den : Nat) (hden : 0 < den) (f : WavFile) (gen : Int →
 
 theorem onGrid_zero (den rate : Nat) : OnGrid den rate 0 := ⟨0, by simp⟩
 
-/-- **replacement, keep list**: with a generator that returns `round(rate · d)` samples and all boundaries on sample
-positions, the result has the original length (`nframes` whole samples) and the bytes of every kept interval are
-the recording's bytes at the same offset — every kept sample is at its original position.  For the empty keep list
-the whole recording is replaced. -/
+/-- every piece of the tiling of `[0, dur]` at intervals with boundaries on sample positions spans as many samples
+as `round(rate · length)` — the last one too, although it ends at the duration -/
+theorem tiling_sameCount (den : Nat) (hden : 0 < den) (f : WavFile) (dur : Int) (hdur : DurOk den f dur)
+    (hnear : DurNear den f dur) (inner : Bool) (L : List (Int × Int)) (hc : InChain 0 L dur)
+    (hgrid : ∀ p ∈ L, OnGrid den f.rate p.1 ∧ OnGrid den f.rate p.2) :
+    ∀ m ∈ tiling inner 0 L dur, SameCount den f.rate m.s m.e := by
+  intro m hm
+  obtain ⟨h0, hlt, hle⟩ := Tiles.mem (tiling_tiles inner 0 L dur hc) m hm
+  obtain ⟨p1, p2⟩ := tiling_forall (fun t => OnGrid den f.rate t ∨ t = dur) inner 0 L dur
+    (Or.inl (onGrid_zero den f.rate)) (Or.inr rfl) (fun p hp => ⟨Or.inl (hgrid p hp).1, Or.inl (hgrid p hp).2⟩) m hm
+  have gs : OnGrid den f.rate m.s := by
+    rcases p1 with h | h
+    · exact h
+    · omega
+  rcases p2 with ge | ge
+  · exact onGrid_sub den f.rate hden m.s m.e h0 (by omega) gs ge
+  · rw [ge]; exact sameCount_to_dur den hden f dur hdur hnear m.s h0 (by omega) gs
+
+/-- **replacement, keep list**: with a generator that returns `round(rate · d)` samples and all boundaries of the
+given intervals on sample positions, the result has the original length (`nframes` whole samples) and the bytes of
+every kept interval are the recording's bytes at the same offset — every kept sample is at its original position.
+The list may be given in any order; for the empty keep list the whole recording is replaced.  The duration itself need
+not be a sample position (`DurNear`). -/
 theorem replace_keep (den : Nat) (hden : 0 < den) (f : WavFile) (dur : Int) (hdur : DurOk den f dur)
-    (gen : Int → List UInt8) (hgen : GenOk den f gen)
-    (K : List (Int × Int)) (hK : SortedDisjoint K 0 dur)
-    (hgrid : ∀ p ∈ K, OnGrid den f.rate p.1 ∧ OnGrid den f.rate p.2) (hgd : OnGrid den f.rate dur) :
+    (hnear : DurNear den f dur) (gen : Int → List UInt8) (hgen : GenOk den f gen)
+    (K : List (Int × Int)) (hK : DisjointIn K 0 dur)
+    (hgrid : ∀ p ∈ K, OnGrid den f.rate p.1 ∧ OnGrid den f.rate p.2) :
     ∃ out, readFramesAtTimes den f dur (some K) [] (some gen) = .ok out ∧
       out.length = f.nframes * f.width ∧
       ∀ p ∈ K, (out.drop (idx den f.rate p.1 * f.width)).take ((idx den f.rate p.2 - idx den f.rate p.1) * f.width) =
         (f.data.drop (idx den f.rate p.1 * f.width)).take ((idx den f.rate p.2 - idx den f.rate p.1) * f.width) := by
-  have hc := inChain_of_sortedDisjoint K 0 dur hK
+  have hc := inChain_of_sortedDisjoint _ 0 dur (sortIv_sortedDisjoint K 0 dur hK)
+  have hgridS : ∀ p ∈ sortIv K, OnGrid den f.rate p.1 ∧ OnGrid den f.rate p.2 :=
+    fun p hp => hgrid p ((sortIv_perm K).mem_iff.1 hp)
   by_cases hne : K ≠ [] ∨ 0 < dur
-  · have hT := tiling_tiles true 0 K dur hc
+  · have hT := tiling_tiles true 0 (sortIv K) dur hc
     obtain ⟨out, e1, len, pos⟩ := assemble_tiles den hden f gen hgen _ 0 dur hT (by omega)
       (by rw [idx_dur den f dur hdur]; omega)
-      (tiling_forall (OnGrid den f.rate) true 0 K dur (onGrid_zero den f.rate) hgd hgrid)
+      (fun m hm _ => tiling_sameCount den hden f dur hdur hnear true (sortIv K) hc hgridS m hm)
     refine ⟨out, ?_, ?_, ?_⟩
     · unfold readFramesAtTimes
-      rw [marked_keep 0 dur K hc hne]
+      rw [marked_keep 0 dur K hK hne]
       simp only
-      rw [checkBounds_tiles 0 dur _ hT (tiling_ne_nil true 0 dur K hne) (Int.le_refl _)]
+      rw [checkBounds_tiles 0 dur _ hT (tiling_ne_nil true 0 dur _ (hne.imp sortIv_ne_nil id)) (Int.le_refl _)]
       exact e1
     · rw [len, idx_dur den f dur hdur, idx_zero den f.rate hden]; rfl
     · intro p hp
-      have hmem : mk true p ∈ tiling true 0 K dur := by
-        have : mk true p ∈ (tiling true 0 K dur).filter (fun m => m.keep == true) := by
-          rw [tiling_filter_inner]; exact List.mem_map_of_mem hp
+      have hmem : mk true p ∈ tiling true 0 (sortIv K) dur := by
+        have : mk true p ∈ (tiling true 0 (sortIv K) dur).filter (fun m => m.keep == true) := by
+          rw [tiling_filter_inner]; exact List.mem_map_of_mem ((sortIv_perm K).mem_iff.2 hp)
         exact (List.mem_filter.1 this).1
       have := pos (mk true p) hmem rfl
       simpa [mk, idx_zero den f.rate hden, window] using this
@@ -841,39 +1155,71 @@ theorem replace_keep (den : Nat) (hden : 0 < den) (f : WavFile) (dur : Int) (hdu
     · have h0 : samplesIn den f.rate 0 = f.nframes := hdur.2
       rw [List.append_nil, hgen 0, h0, Int.toNat_natCast]
 
-/-- **replacement, delete list**: the same for the kept complement of a delete list (touching, at the edges, covering everything) -/
+/-- **replacement, delete list**: the same for the kept complement of a delete list (any order; empty, touching, at
+the edges, covering everything) -/
 theorem replace_delete (den : Nat) (hden : 0 < den) (f : WavFile) (dur : Int) (hdur : DurOk den f dur)
-    (gen : Int → List UInt8) (hgen : GenOk den f gen)
-    (D : List (Int × Int)) (hD : SortedDisjoint D 0 dur) (hne : D ≠ [])
-    (hgrid : ∀ p ∈ D, OnGrid den f.rate p.1 ∧ OnGrid den f.rate p.2) (hgd : OnGrid den f.rate dur) :
+    (hnear : DurNear den f dur) (gen : Int → List UInt8) (hgen : GenOk den f gen)
+    (D : List (Int × Int)) (hD : DisjointIn D 0 dur)
+    (hgrid : ∀ p ∈ D, OnGrid den f.rate p.1 ∧ OnGrid den f.rate p.2) :
     ∃ out, readFramesAtTimes den f dur none D (some gen) = .ok out ∧
       out.length = f.nframes * f.width ∧
-      ∀ p ∈ complement 0 D dur,
+      ∀ p ∈ complement 0 (sortIv D) dur,
         (out.drop (idx den f.rate p.1 * f.width)).take ((idx den f.rate p.2 - idx den f.rate p.1) * f.width) =
         (f.data.drop (idx den f.rate p.1 * f.width)).take ((idx den f.rate p.2 - idx den f.rate p.1) * f.width) := by
-  have hc := inChain_of_sortedDisjoint D 0 dur hD
-  have hT := tiling_tiles false 0 D dur hc
-  obtain ⟨out, e1, len, pos⟩ := assemble_tiles den hden f gen hgen _ 0 dur hT (by omega)
-    (by rw [idx_dur den f dur hdur]; omega)
-    (tiling_forall (OnGrid den f.rate) false 0 D dur (onGrid_zero den f.rate) hgd hgrid)
-  refine ⟨out, ?_, ?_, ?_⟩
-  · unfold readFramesAtTimes
-    rw [marked_delete 0 dur none rfl D hc hne]
-    simp only
-    rw [checkBounds_tiles 0 dur _ hT (tiling_ne_nil false 0 dur D (Or.inl hne)) (Int.le_refl _)]
-    exact e1
-  · rw [len, idx_dur den f dur hdur, idx_zero den f.rate hden]; rfl
-  · intro p hp
-    have hmem : mk true p ∈ tiling false 0 D dur := by
-      have : mk true p ∈ (tiling false 0 D dur).filter (fun m => !(m.keep == false)) := by
-        rw [tiling_filter_outer]; exact List.mem_map_of_mem hp
-      exact (List.mem_filter.1 this).1
-    have := pos (mk true p) hmem rfl
-    simpa [mk, idx_zero den f.rate hden, window] using this
+  have hc := inChain_of_sortedDisjoint _ 0 dur (sortIv_sortedDisjoint D 0 dur hD)
+  have hgridS : ∀ p ∈ sortIv D, OnGrid den f.rate p.1 ∧ OnGrid den f.rate p.2 :=
+    fun p hp => hgrid p ((sortIv_perm D).mem_iff.1 hp)
+  by_cases hne : D ≠ [] ∨ 0 < dur
+  · have hT := tiling_tiles false 0 (sortIv D) dur hc
+    obtain ⟨out, e1, len, pos⟩ := assemble_tiles den hden f gen hgen _ 0 dur hT (by omega)
+      (by rw [idx_dur den f dur hdur]; omega)
+      (fun m hm _ => tiling_sameCount den hden f dur hdur hnear false (sortIv D) hc hgridS m hm)
+    refine ⟨out, ?_, ?_, ?_⟩
+    · unfold readFramesAtTimes
+      rw [marked_delete_none 0 dur D hD hne]
+      simp only
+      rw [checkBounds_tiles 0 dur _ hT (tiling_ne_nil false 0 dur _ (hne.imp sortIv_ne_nil id)) (Int.le_refl _)]
+      exact e1
+    · rw [len, idx_dur den f dur hdur, idx_zero den f.rate hden]; rfl
+    · intro p hp
+      have hmem : mk true p ∈ tiling false 0 (sortIv D) dur := by
+        have : mk true p ∈ (tiling false 0 (sortIv D) dur).filter (fun m => !(m.keep == false)) := by
+          rw [tiling_filter_outer]; exact List.mem_map_of_mem hp
+        exact (List.mem_filter.1 this).1
+      have := pos (mk true p) hmem rfl
+      simpa [mk, idx_zero den f.rate hden, window] using this
+  · have hD0 : D = [] := by
+      by_cases h : D = []
+      · exact h
+      · exact absurd (Or.inl h) hne
+    have hd0 : dur = 0 := by have := hdur.1; omega
+    subst hD0; subst hd0
+    have h0 : (f.nframes : Int) = 0 := by
+      have h := hdur.2
+      unfold samplesIn at h
+      rw [Int.mul_zero, C16.roundHalfEven_zero den hden] at h
+      exact h.symm
+    refine ⟨[], ?_, ?_, ?_⟩
+    · unfold readFramesAtTimes
+      rw [marked_none]
+      simp only [checkBounds, List.head?_cons, List.getLast?_singleton]
+      rw [if_neg (by omega)]
+      simp only [assemble, if_true]
+      rw [read_window_in den hden f 0 0 (Int.le_refl _) (Int.le_refl _) (by rw [idx_zero den f.rate hden]; omega)]
+      simp [window, idx_zero den f.rate hden]
+    · have : f.nframes = 0 := by omega
+      rw [this]; simp
+    · intro p hp
+      rw [sortIv_nil] at hp
+      unfold complement at hp
+      rw [if_neg (by omega)] at hp
+      cases hp
 
 /-! ## 9. the documented rejections -/
 
-/-- **both lists given: `ArgumentError`** (whatever the lists, the recording and the generator) -/
+/-- **both lists given: `ArgumentError`** (whatever the lists, the recording and the generator).  "Given" is what the
+code tests: non-empty.  An empty keep list next to a delete list is a delete call (`marked_delete` with
+`keep = some []`), an empty delete list next to a keep list a keep call. -/
 theorem both_lists_rejected (den : Nat) (f : WavFile) (dur : Int) (K D : List (Int × Int))
     (gen : Option (Int → List UInt8)) (hK : K ≠ []) (hD : D ≠ []) :
     readFramesAtTimes den f dur (some K) D gen = .error (.praat .ArgumentError) := by
@@ -933,7 +1279,8 @@ theorem last_of_sorted (lab : Bool) (K G : List (Int × Int)) (g : Int × Int) (
       omega
 
 /-- the marked list of a sorted disjoint list (either role) ends with the list's last interval when that one ends
-after `stop` -/
+after `stop`.  (Stated for a list in time order; for any other order apply it to `sortIv L`: `computeKeepDelete_perm`.
+Positive lengths: otherwise `nonpositive_interval_rejected`.) -/
 theorem marked_last (a b : Int) (L : List (Int × Int)) (hne : L ≠ []) (hpos : ∀ p ∈ L, p.1 < p.2)
     (hpw : L.Pairwise (fun x y => x.2 ≤ y.1)) (g : Int × Int) (hg : L.getLast? = some g) (hgb : b < g.2) :
     (∃ ms, computeKeepDelete a b (some L) [] = .ok ms ∧ ms.getLast? = some (mk true g)) ∧
@@ -1028,7 +1375,8 @@ theorem first_of_sorted (lab : Bool) (K G : List (Int × Int)) (f : Int × Int) 
         omega
 
 /-- the marked list of a sorted disjoint list (either role) begins with the list's first interval when that one
-starts before `start` -/
+starts before `start`.  (Stated for a list in time order; for any other order apply it to `sortIv L`:
+`computeKeepDelete_perm`.  Positive lengths: otherwise `nonpositive_interval_rejected`.) -/
 theorem marked_first (a b : Int) (L : List (Int × Int)) (hpos : ∀ p ∈ L, p.1 < p.2)
     (hpw : L.Pairwise (fun x y => x.2 ≤ y.1)) (f : Int × Int) (hf : L.head? = some f) (hfa : f.1 < a) :
     (∃ ms, computeKeepDelete a b (some L) [] = .ok ms ∧ ms.head? = some (mk true f)) ∧
@@ -1096,9 +1444,8 @@ theorem marked_first (a b : Int) (L : List (Int × Int)) (hpos : ∀ p ∈ L, p.
     exact first_of_sorted false _ _ f _ ((List.mergeSort_perm _ _).trans List.perm_append_comm)
       (List.pairwise_mergeSort (fun a b c => le_trans a b c) le_total _) (by simp) hfirst hG
 
-/-- **a time outside the recording: `ArgumentError`** — for every sorted disjoint keep or delete list one of whose
-intervals starts before 0 or ends after the duration, with or without replacement -/
-theorem out_of_range_rejected (den : Nat) (f : WavFile) (dur : Int) (gen : Option (Int → List UInt8))
+/-- `out_of_range_rejected` for a list of positive-length intervals given in time order -/
+theorem out_of_range_rejected_sorted (den : Nat) (f : WavFile) (dur : Int) (gen : Option (Int → List UInt8))
     (L : List (Int × Int)) (hpos : ∀ p ∈ L, p.1 < p.2) (hpw : L.Pairwise (fun x y => x.2 ≤ y.1))
     (hout : ∃ p ∈ L, p.1 < 0 ∨ dur < p.2) :
     readFramesAtTimes den f dur (some L) [] gen = .error (.praat .ArgumentError) ∧
@@ -1134,6 +1481,45 @@ theorem out_of_range_rejected (den : Nat) (f : WavFile) (dur : Int) (gen : Optio
       rw [e2]; simp only
       rw [checkBounds_err dur ms' (Or.inl ⟨_, l2, hx0⟩)]
 
+/-- **an interval of zero or negative length: `ArgumentError`** (raised by `utils.invertIntervalList`) — anywhere in a
+keep or a delete list, whatever else the list holds, with or without replacement -/
+theorem nonpositive_interval_rejected (den : Nat) (f : WavFile) (dur : Int) (gen : Option (Int → List UInt8))
+    (L : List (Int × Int)) (h : ∃ p ∈ L, p.2 ≤ p.1) :
+    readFramesAtTimes den f dur (some L) [] gen = .error (.praat .ArgumentError) ∧
+    readFramesAtTimes den f dur none L gen = .error (.praat .ArgumentError) := by
+  have hne : L ≠ [] := by obtain ⟨p, hp, _⟩ := h; exact List.ne_nil_of_mem hp
+  have hinv := C15.invert_rejects L (some 0) (some dur) h
+  constructor
+  · unfold readFramesAtTimes computeKeepDelete
+    simp [isEmpty_false L hne, hinv]
+  · unfold readFramesAtTimes computeKeepDelete
+    simp [isEmpty_false L hne, hinv]
+
+/-- **a time outside the recording: `ArgumentError`** — for every keep or delete list of pairwise disjoint intervals,
+**in any order**, one of whose intervals starts before 0 or ends after the duration, with or without replacement.
+(No positivity assumption: a list with an interval of zero or negative length is an `ArgumentError` anyway,
+`nonpositive_interval_rejected`.  Disjointness is needed: `nested_out_of_range_counterexample`.) -/
+theorem out_of_range_rejected (den : Nat) (f : WavFile) (dur : Int) (gen : Option (Int → List UInt8))
+    (L : List (Int × Int)) (hpw : L.Pairwise (fun x y => x.2 ≤ y.1 ∨ y.2 ≤ x.1))
+    (hout : ∃ p ∈ L, p.1 < 0 ∨ dur < p.2) :
+    readFramesAtTimes den f dur (some L) [] gen = .error (.praat .ArgumentError) ∧
+    readFramesAtTimes den f dur none L gen = .error (.praat .ArgumentError) := by
+  by_cases hbad : ∃ p ∈ L, p.2 ≤ p.1
+  · exact nonpositive_interval_rejected den f dur gen L hbad
+  · have hpos : ∀ p ∈ L, p.1 < p.2 := by
+      intro p hp
+      by_cases h : p.1 < p.2
+      · exact h
+      · exact absurd ⟨p, hp, by omega⟩ hbad
+    have hperm := sortIv_perm L
+    have hposS : ∀ p ∈ sortIv L, p.1 < p.2 := fun p hp => hpos p (hperm.mem_iff.1 hp)
+    obtain ⟨p, hp, hpd⟩ := hout
+    have key := out_of_range_rejected_sorted den f dur gen (sortIv L) hposS (sortIv_chain L hpos hpw)
+      ⟨p, hperm.mem_iff.2 hp, hpd⟩
+    rw [(readFramesAtTimes_perm den f dur gen hperm.symm (List.Perm.refl [])).1,
+      (readFramesAtTimes_perm den f dur gen (List.Perm.refl []) hperm.symm).2]
+    exact key
+
 /-- regression (C17-2, fixed by 25e3c22): an explicitly empty keep list keeps nothing — or replaces everything —
 while "no list" still returns the whole recording -/
 theorem keep_empty_regression :
@@ -1141,8 +1527,8 @@ theorem keep_empty_regression :
     readFramesAtTimes 8 ⟨1, 8, [1, 2, 3, 4]⟩ 4 (some []) [] (some (generateSilence 8 8 1)) = .ok [0, 0, 0, 0] ∧
     readFramesAtTimes 8 ⟨1, 8, [1, 2, 3, 4]⟩ 4 none [] none = .ok [1, 2, 3, 4] := by
   refine ⟨?_, ?_, ?_⟩
-  · unfold readFramesAtTimes; rw [marked_keep 0 4 [] (show (0 : Int) ≤ 4 by decide) (Or.inr (by decide))]; decide
-  · unfold readFramesAtTimes; rw [marked_keep 0 4 [] (show (0 : Int) ≤ 4 by decide) (Or.inr (by decide))]; decide
+  · unfold readFramesAtTimes; rw [marked_keep_sorted 0 4 [] (show (0 : Int) ≤ 4 by decide) (Or.inr (by decide))]; decide
+  · unfold readFramesAtTimes; rw [marked_keep_sorted 0 4 [] (show (0 : Int) ≤ 4 by decide) (Or.inr (by decide))]; decide
   · unfold readFramesAtTimes; rw [marked_none]; decide
 
 /-- regression (C17-1, fixed by 2609506): the inputs that used to be accepted — a delete interval starting before 0
@@ -1153,9 +1539,9 @@ theorem negative_time_regression :
     readFramesAtTimes 8 ⟨1, 8, [1, 2, 3, 4, 5, 6, 7, 8]⟩ 8 none [(-8, 4)] (some (generateSilence 8 8 1)) =
       .error (.praat .ArgumentError) ∧
     readFramesAtTimes 64 ⟨1, 8, [1, 2, 3, 4, 5, 6, 7, 8]⟩ 64 (some [(-1, 64)]) [] none = .error (.praat .ArgumentError) :=
-  ⟨(out_of_range_rejected 8 _ 8 none [(-8, 4)] (by simp) (by simp) ⟨(-8, 4), by simp, Or.inl (by decide)⟩).2,
-   (out_of_range_rejected 8 _ 8 _ [(-8, 4)] (by simp) (by simp) ⟨(-8, 4), by simp, Or.inl (by decide)⟩).2,
-   (out_of_range_rejected 64 _ 64 none [(-1, 64)] (by simp) (by simp) ⟨(-1, 64), by simp, Or.inl (by decide)⟩).1⟩
+  ⟨(out_of_range_rejected 8 _ 8 none [(-8, 4)] (by simp) ⟨(-8, 4), by simp, Or.inl (by decide)⟩).2,
+   (out_of_range_rejected 8 _ 8 _ [(-8, 4)] (by simp) ⟨(-8, 4), by simp, Or.inl (by decide)⟩).2,
+   (out_of_range_rejected 64 _ 64 none [(-1, 64)] (by simp) ⟨(-1, 64), by simp, Or.inl (by decide)⟩).1⟩
 
 /-! ## 10. generated audio has `round(rate × duration)` samples -/
 
@@ -1164,7 +1550,10 @@ theorem samplesIn_spec (den rate : Nat) (hden : 0 < den) (d : Int) :
     C16.IsRoundHalfEven ((rate : Int) * d) den (samplesIn den rate d) :=
   C16.roundHalfEven_spec _ _ hden
 
-/-- **silence has `round(rate × duration)` samples** (none for a negative duration) -/
+/-- **silence has `round(rate × duration)` samples** (none for a negative duration, a zero or a negative rate).
+No condition on rate, width or duration.  The model does not represent the `KeyError` of `sampleWidthDict` for a
+sample width other than 1, 2, 4, 8 (e.g. 24-bit audio, width 3, which `wave` can read): the property quantifies over
+widths 1/2/4. -/
 theorem silence_length (den rate width : Nat) (d : Int) :
     (generateSilence den rate width d).length = (samplesIn den rate d).toNat * width :=
   List.length_replicate
@@ -1186,7 +1575,9 @@ theorem sineCount_eq (den rate : Nat) (d : Int) : sineCount den rate d = (sample
   unfold sineCount samplesIn; rw [Int.mul_comm]
 
 /-- **a generated sine wave has `round(rate × duration)` samples**, whatever the sample values `math.sin` yields
-(when they fit the sample width; otherwise `struct.error`) -/
+(when they fit the sample width; otherwise `struct.error`; a width other than 1, 2, 4, 8: `KeyError`) — none for a
+negative duration.  `h` only says that the call returned.  Not modelled: rate 0 (`ZeroDivisionError` in
+`2π·frequency / float(frameRate)`; `wave` writes no such file). -/
 theorem sine_length (den rate width : Nat) (vals : Nat → Int) (d : Int) (bs : List UInt8)
     (h : generateSineWave den rate width vals d = .ok bs) :
     bs.length = (samplesIn den rate d).toNat * width := by
@@ -1200,22 +1591,43 @@ theorem sine_length (den rate width : Nat) (vals : Nat → Int) (d : Int) (bs : 
 
 /-! ## 11. `extractSubwav` -/
 
-/-- **extractSubwav writes the source's parameters and exactly the window of the source** -/
-theorem extract_spec (den : Nat) (hden : 0 < den) (f : WavFile) (s e : Int) (hs : 0 ≤ s) (hse : s ≤ e)
-    (he : idx den f.rate e ≤ f.nframes) :
+/-- **extractSubwav writes the source's parameters and exactly the window of the source** — for every pair of times
+whose start index is a position of the file (a reversed pair: an empty file; an end beyond the recording: clamped) -/
+theorem extract_spec (den : Nat) (f : WavFile) (s e : Int)
+    (hs : 0 ≤ samplesIn den f.rate s) (hsn : samplesIn den f.rate s ≤ f.nframes) :
     extractSubwav f ⟨s, den⟩ ⟨e, den⟩ = .ok ⟨f.width, f.rate, window den f (s, e)⟩ := by
   unfold extractSubwav QueryWav.getFrames
   simp only [Option.getD_some]
-  rw [read_window den hden f s e hs hse he]
+  rw [read_window den f s e hs hsn]
   rfl
 
-/-- the file-backed path (QueryWav) and the in-memory path (`Wav.getSubwav`) extract the same frames -/
-theorem extract_eq_getSubwav (f : WavFile) (s e : QTime) (hds : 0 < s.den) (hde : 0 < e.den)
-    (hs0 : 0 ≤ s.num) (hs1 : s ≤ f.duration) (he0 : 0 ≤ e.num) :
-    extractSubwav f s e = .ok ⟨f.width, f.rate, (Wav.getSubwav ⟨f.width, f.rate, f.data⟩ s e).frames⟩ := by
+/-- … and for every other start nothing is written: `wave.Error` (`setpos`) -/
+theorem extract_outside (den : Nat) (f : WavFile) (s e : Int)
+    (h : samplesIn den f.rate s < 0 ∨ (f.nframes : Int) < samplesIn den f.rate s) :
+    extractSubwav f ⟨s, den⟩ ⟨e, den⟩ = .error .WaveError := by
   unfold extractSubwav QueryWav.getFrames
   simp only [Option.getD_some]
-  rw [C16.query_eq_wav f s e hds hde hs0 hs1 he0]
+  rw [read_window_error den f s e h]
+
+/-- the file-backed path (QueryWav) and the in-memory path (`Wav.getSubwav`) extract the same frames — for any two
+times (each with its own denominator) whose start index is a position of the file and whose end index is not negative;
+reversed and beyond-the-end windows included.  Outside: the file-backed path raises `wave.Error` (`extract_outside`)
+where the in-memory slice returns nothing or counts from the end (C16's domain). -/
+theorem extract_eq_getSubwav (f : WavFile) (s e : QTime)
+    (hs0 : 0 ≤ sampleAtTime s f.rate) (hs1 : sampleAtTime s f.rate ≤ f.nframes) (he0 : 0 ≤ sampleAtTime e f.rate) :
+    extractSubwav f s e = .ok ⟨f.width, f.rate, (Wav.getSubwav ⟨f.width, f.rate, f.data⟩ s e).frames⟩ := by
+  have e1 : roundHalfEven ((f.rate : Int) * s.num) s.den = sampleAtTime s f.rate := by
+    unfold sampleAtTime; rw [Int.mul_comm]
+  have e2 : roundHalfEven ((f.rate : Int) * e.num) e.den = sampleAtTime e f.rate := by
+    unfold sampleAtTime; rw [Int.mul_comm]
+  unfold extractSubwav QueryWav.getFrames
+  simp only [Option.getD_some]
+  unfold readFramesAtTime
+  simp only [e1, e2]
+  rw [readAt_window f _ _ hs0 hs1]
+  unfold Wav.getSubwav Wav.getFrames Wav.index indexAtTime
+  simp only
+  rw [getB_window _ _ _ _ hs0 he0]
   rfl
 
 
@@ -1343,7 +1755,8 @@ theorem indexedName_length (stem : String) (n i : Nat) (h : i < n) :
   rw [String.length_append, String.length_append, padLeft_length _ _ (repr_length_le n i h)]
   rfl
 
-/-- with `nameStyle` None or `'append'` the name determines the entry number -/
+/-- with `nameStyle` None or `'append'` the name determines the entry number.  `i, j < n` holds by construction
+(`i` enumerates the `n` entries); the other two styles: `split_label_collision`. -/
 theorem outputName_inj (stem : String) (style : NameStyle) (hs : style = .default ∨ style = .append) (n i j : Nat)
     (hi : i < n) (hj : j < n) (l l' : String) (h : outputName stem style n i l = outputName stem style n j l') : i = j := by
   rcases hs with rfl | rfl
@@ -1386,30 +1799,62 @@ theorem split_label_collision (stem : String) (n i j : Nat) (l : String) :
 
 /-! ### frames (exact instance: a timestamp `k` is `k / den`) -/
 
-/-- **each written wave file holds the source's parameters and exactly the window of its entry** -/
-theorem split_frames (den : Nat) (hden : 0 < den) (f : WavFile) (g : Tg Int) (stem : String) (flag : TgFlag)
+/-- **each written wave file holds the source's parameters and exactly the window of its entry** — no condition on
+the entries: when the call succeeds, every entry starts at a position of the recording (`split_entries_inside`) -/
+theorem split_frames (den : Nat) (f : WavFile) (g : Tg Int) (stem : String) (flag : TgFlag)
     (style : NameStyle) (noPartial : Bool) (n : Nat) : ∀ (i : Nat) (es : List (Iv Int)) (outs : List (SplitOut Int)),
       SplitRel (fun k => ⟨k, den⟩) f g stem flag style noPartial n i es outs →
-      (∀ iv ∈ es, 0 ≤ iv.s ∧ iv.s ≤ iv.e ∧ idx den f.rate iv.e ≤ f.nframes) →
       outs.map (·.wav) = es.map (fun iv => ⟨f.width, f.rate, window den f (iv.s, iv.e)⟩)
-  | _, [], [], _, _ => rfl
-  | i, iv :: rest, o :: outs, ⟨⟨_, h2, h3, h4, _⟩, hrest⟩, hin => by
-    obtain ⟨a1, a2, a3⟩ := hin iv (by simp)
-    have ih := split_frames den hden f g stem flag style noPartial n (i + 1) rest outs hrest
-      (fun x hx => hin x (List.mem_cons_of_mem _ hx))
+  | _, [], [], _ => rfl
+  | i, iv :: rest, o :: outs, ⟨⟨_, h2, h3, h4, _⟩, hrest⟩ => by
+    have ih := split_frames den f g stem flag style noPartial n (i + 1) rest outs hrest
     have hw : o.wav = ⟨f.width, f.rate, window den f (iv.s, iv.e)⟩ := by
       unfold QueryWav.getFrames at h2
       simp only [Option.getD_some] at h2
-      rw [read_window den hden f iv.s iv.e a1 a2 a3] at h2
-      have hd := Except.ok.inj h2
-      cases hwav : o.wav with
-      | mk w r d =>
-        rw [hwav] at h3 h4 hd
-        simp only at h3 h4 hd
-        rw [h3, h4, ← hd]
+      by_cases hin : 0 ≤ samplesIn den f.rate iv.s ∧ samplesIn den f.rate iv.s ≤ f.nframes
+      · rw [read_window den f iv.s iv.e hin.1 hin.2] at h2
+        have hd := Except.ok.inj h2
+        cases hwav : o.wav with
+        | mk w r d =>
+          rw [hwav] at h3 h4 hd
+          simp only at h3 h4 hd
+          rw [h3, h4, ← hd]
+      · rw [read_window_error den f iv.s iv.e (by omega)] at h2
+        cases h2
     simp only [List.map_cons, hw, ih]
-  | _, [], _ :: _, h, _ => by cases h
-  | _, _ :: _, [], h, _ => by cases h
+  | _, [], _ :: _, h => by cases h
+  | _, _ :: _, [], h => by cases h
+
+/-- when `splitAudioOnTier` succeeds, every entry starts at a position of the recording … -/
+theorem split_entries_inside (den : Nat) (f : WavFile) (g : Tg Int) (stem : String) (flag : TgFlag)
+    (style : NameStyle) (noPartial : Bool) (n : Nat) : ∀ (i : Nat) (es : List (Iv Int)) (outs : List (SplitOut Int)),
+      SplitRel (fun k => ⟨k, den⟩) f g stem flag style noPartial n i es outs →
+      ∀ iv ∈ es, 0 ≤ samplesIn den f.rate iv.s ∧ samplesIn den f.rate iv.s ≤ f.nframes
+  | _, [], [], _ => by intro iv hiv; cases hiv
+  | i, x :: rest, o :: outs, ⟨⟨_, h2, _⟩, hrest⟩ => by
+    intro iv hiv
+    rcases List.mem_cons.1 hiv with rfl | hiv
+    · unfold QueryWav.getFrames at h2
+      simp only [Option.getD_some] at h2
+      by_cases hin : 0 ≤ samplesIn den f.rate iv.s ∧ samplesIn den f.rate iv.s ≤ f.nframes
+      · exact hin
+      · rw [read_window_error den f iv.s iv.e (by omega)] at h2
+        cases h2
+    · exact split_entries_inside den f g stem flag style noPartial n (i + 1) rest outs hrest iv hiv
+  | _, [], _ :: _, h => by cases h
+  | _, _ :: _, [], h => by cases h
+
+/-- … because an entry that starts before the first or after the last position of the recording (a TextGrid longer
+than the recording) stops the loop with the `wave.Error` of `setpos` — the files of the earlier entries are already
+written -/
+theorem split_entry_outside (den : Nat) (f : WavFile) (g : Tg Int) (stem : String) (flag : TgFlag)
+    (style : NameStyle) (noPartial : Bool) (n i : Nat) (iv : Iv Int) (rest : List (Iv Int))
+    (h : samplesIn den f.rate iv.s < 0 ∨ (f.nframes : Int) < samplesIn den f.rate iv.s) :
+    splitLoop (fun k => ⟨k, den⟩) f g stem flag style noPartial n i (iv :: rest) = .error (.audio .WaveError) := by
+  simp only [splitLoop]
+  unfold QueryWav.getFrames
+  simp only [Option.getD_some]
+  rw [read_window_error den f iv.s iv.e h]
 
 /-! ### the cropped TextGrids -/
 
@@ -1476,7 +1921,9 @@ theorem fold_span (f : AnyTier Int → Except Err (AnyTier Int)) (rep : Report) 
     · simp only [h2, e2, C12.widenHi]; congr 1; omega
 
 /-- **the cropped TextGrid of an entry spans exactly `[0, end − start]`** (all tiers of the source well-formed;
-`noPartialIntervals` either way; all tiers or only the requested one) -/
+`noPartialIntervals` either way; all tiers or only the requested one).  `hwf`: the textgrid is the one `openTextgrid`
+returned, whose tiers are well-formed by construction (C05); `hse`: an entry of a well-formed tier has positive
+length (`split_tg_label` derives it); `h`: the crop returned (`split_one_per_entry` provides it for every output). -/
 theorem split_tg_span (g : Tg Int) (hwf : ∀ t ∈ g.tiers, C12.AnyWF t) (s e : Int) (hse : s < e) (noPartial : Bool)
     (flag : TgFlag) (sub : Tg Int) (h : splitTg g s e noPartial flag = .ok (some sub)) :
     sub.lo = some 0 ∧ sub.hi = some (e - s) := by
@@ -1499,7 +1946,9 @@ theorem split_tg_span (g : Tg Int) (hwf : ∀ t ∈ g.tiers, C12.AnyWF t) (s e :
     exact key z hz
 
 /-- **… and contains the entry's label**: the tier the recording is split on appears in the cropped TextGrid (when all
-tiers or that tier are requested) with the entry `(0, end − start, label)` -/
+tiers or that tier are requested) with the entry `(0, end − start, label)`.  `hflag` is the documented behaviour, not
+a convenience: with `outputTGFlag` = the name of *another* tier the cropped TextGrid holds only that tier (none at all
+for a name that is no tier's), so the entry's label is not in it. -/
 theorem split_tg_label (g : Tg Int) (hwf : ∀ t ∈ g.tiers, C12.AnyWF t) (t : ITier Int) (ht : AnyTier.I t ∈ g.tiers)
     (iv : Iv Int) (hiv : iv ∈ t.es) (noPartial : Bool) (flag : TgFlag) (hflag : flag = .all ∨ flag = .only t.name)
     (sub : Tg Int) (h : splitTg g iv.s iv.e noPartial flag = .ok (some sub)) :
@@ -1547,12 +1996,34 @@ def exKeep : List (Int × Int) := [(2, 4), (4, 6), (10, 16)]
 
 /-- the hypotheses of `keep_spec`, `delete_spec`, `replace_keep`, `replace_delete` are satisfiable together -/
 theorem ex_hypotheses :
-    DurOk 8 exFile 16 ∧ SortedDisjoint exKeep 0 16 ∧ exKeep ≠ [] ∧
-    (∀ p ∈ exKeep, OnGrid 8 exFile.rate p.1 ∧ OnGrid 8 exFile.rate p.2) ∧ OnGrid 8 exFile.rate 16 ∧
+    DurOk 8 exFile 16 ∧ DurNear 8 exFile 16 ∧ SortedDisjoint exKeep 0 16 ∧ DisjointIn exKeep 0 16 ∧ exKeep ≠ [] ∧
+    (∀ p ∈ exKeep, OnGrid 8 exFile.rate p.1 ∧ OnGrid 8 exFile.rate p.2) ∧
     GenOk 8 exFile (generateSilence 8 exFile.rate exFile.width) := by
-  refine ⟨by decide, by decide, by decide, ?_, ⟨16, by decide⟩, silence_genOk 8 exFile⟩
+  refine ⟨by decide, by decide, by decide, by decide, by decide, ?_, silence_genOk 8 exFile⟩
   intro p hp
   exact ⟨⟨p.1, Int.mul_comm _ _⟩, ⟨p.2, Int.mul_comm _ _⟩⟩
+
+/-- the duration the code computes need not be a sample position: for 7 samples at 10 Hz it is the binary64 value
+`7 / 10.0 = 3152519739159347 / 2^52`, which satisfies `DurOk` and `DurNear` although `10 · dur ≠ 7`; `replace_delete`
+applies to the delete interval `[0 s, 0.5 s]` (boundaries on sample positions) and the result
+(`0 0 0 0 0 6 7` in the code and in the model) has the original 7 samples -/
+theorem ex_dur_offgrid :
+    DurOk 4503599627370496 ⟨1, 10, [1, 2, 3, 4, 5, 6, 7]⟩ 3152519739159347 ∧
+    DurNear 4503599627370496 ⟨1, 10, [1, 2, 3, 4, 5, 6, 7]⟩ 3152519739159347 ∧
+    ¬ OnGrid 4503599627370496 10 3152519739159347 ∧
+    ∃ out, readFramesAtTimes 4503599627370496 ⟨1, 10, [1, 2, 3, 4, 5, 6, 7]⟩ 3152519739159347 none
+        [(0, 2251799813685248)] (some (generateSilence 4503599627370496 10 1)) = .ok out ∧ out.length = 7 := by
+  refine ⟨by decide, by decide, ?_, ?_⟩
+  · rintro ⟨m, hm⟩
+    omega
+  · obtain ⟨out, h1, h2, _⟩ := replace_delete 4503599627370496 (by decide) ⟨1, 10, [1, 2, 3, 4, 5, 6, 7]⟩ 3152519739159347
+      (by decide) (by decide) _ (silence_genOk _ _) [(0, 2251799813685248)] (by decide)
+      (by
+        intro p hp
+        simp only [List.mem_singleton] at hp
+        subst hp
+        exact ⟨⟨0, by decide⟩, ⟨5, by decide⟩⟩)
+    exact ⟨out, h1, h2⟩
 
 /-- … and the theorems then give the concrete results (keep, delete, empty keep list) -/
 theorem ex_results :
@@ -1560,11 +2031,11 @@ theorem ex_results :
     readFramesAtTimes 8 exFile 16 none exKeep none = .ok [1, 2, 7, 8, 9, 10] ∧
     readFramesAtTimes 8 exFile 16 (some []) [] none = .ok [] ∧
     complement 0 exKeep 16 = [(0, 2), (6, 10)] := by
-  obtain ⟨h1, h2, _, _⟩ := ex_hypotheses
+  obtain ⟨h1, _, h2, _⟩ := ex_hypotheses
   refine ⟨?_, ?_, ?_, by decide⟩
-  · rw [keep_spec 8 (by decide) exFile 16 h1 exKeep h2]; decide
-  · rw [delete_spec 8 (by decide) exFile 16 h1 exKeep h2]; decide
-  · rw [keep_spec 8 (by decide) exFile 16 h1 [] (by decide)]; rfl
+  · rw [keep_spec_sorted 8 (by decide) exFile 16 h1 exKeep h2]; decide
+  · rw [delete_spec_sorted 8 (by decide) exFile 16 h1 exKeep h2]; decide
+  · rw [keep_spec_sorted 8 (by decide) exFile 16 h1 [] (by decide)]; rfl
 
 /-- off the sample grid (times in 1/80 s): each boundary is rounded once, so the windows of a delete list and of
 its complement tile the recording — nothing is dropped or read twice -/
@@ -1572,6 +2043,131 @@ theorem ex_offgrid :
     DurOk 80 exFile 160 ∧ SortedDisjoint [(23, 47), (47, 101)] 0 160 ∧
     complement 0 [(23, 47), (47, 101)] 160 = [(0, 23), (101, 160)] ∧
     [(0, 23), (23, 47), (47, 101), (101, 160)].flatMap (window 80 exFile) = exFile.data := by decide
+
+/-! ### overlapping lists: disjointness is assumed by the property, it is not enforced by the code -/
+
+/-- evaluation of `_computeKeepDeleteIntervals` for a keep list, given what `invertIntervalList` returns and the
+sorted arrangement of the marked intervals -/
+theorem kd_keep_eval (a b : Int) (K inv : List (Int × Int)) (ms : List Marked) (hK : K ≠ [])
+    (hinv : invertIntervalList K (some a) (some b) = .ok inv)
+    (hperm : (K.map markKeep ++ inv.map markDelete).Perm ms) (hs : ms.Pairwise (fun x y => Marked.le x y = true)) :
+    computeKeepDelete a b (some K) [] = .ok ms := by
+  unfold computeKeepDelete
+  simp only [Option.getD_some, isEmpty_false K hK, List.isEmpty_nil, Bool.not_false, Bool.not_true, Bool.and_false,
+    Bool.false_and, Option.isNone_some, Bool.false_eq_true, if_false]
+  rw [hinv]
+  exact congrArg Except.ok (mergeSort_eq_of_sorted_perm _ _ hperm hs)
+
+theorem kd_delete_eval (a b : Int) (D inv : List (Int × Int)) (ms : List Marked) (hD : D ≠ [])
+    (hinv : invertIntervalList D (some a) (some b) = .ok inv)
+    (hperm : (inv.map markKeep ++ D.map markDelete).Perm ms) (hs : ms.Pairwise (fun x y => Marked.le x y = true)) :
+    computeKeepDelete a b none D = .ok ms := by
+  unfold computeKeepDelete
+  simp only [Option.getD_none, isEmpty_false D hD, List.isEmpty_nil, Bool.not_false, Bool.not_true, Bool.and_false,
+    Bool.and_true, Bool.false_eq_true, if_false, if_true]
+  rw [hinv]
+  exact congrArg Except.ok (mergeSort_eq_of_sorted_perm _ _ hperm hs)
+
+theorem ex_invert_overlap : invertIntervalList [((2 : Int), (6 : Int)), (4, 8)] (some 0) (some 16) =
+    .ok [(0, 2), (6, 4), (8, 16)] := by
+  have hs : [((2 : Int), (6 : Int)), (4, 8)].mergeSort pairLe = [(2, 6), (4, 8)] :=
+    List.mergeSort_of_pairwise (by decide)
+  unfold invertIntervalList
+  rw [hs]
+  decide
+
+theorem ex_invert_nested (e : Int) (he : e = 12 ∨ e = 24) :
+    invertIntervalList [((2 : Int), e), (4, 8)] (some 0) (some 16) = .ok [(0, 2), (e, 4), (8, 16)] := by
+  rcases he with rfl | rfl
+  · have hs : [((2 : Int), (12 : Int)), (4, 8)].mergeSort pairLe = [(2, 12), (4, 8)] :=
+      List.mergeSort_of_pairwise (by decide)
+    unfold invertIntervalList
+    rw [hs]
+    decide
+  · have hs : [((2 : Int), (24 : Int)), (4, 8)].mergeSort pairLe = [(2, 24), (4, 8)] :=
+      List.mergeSort_of_pairwise (by decide)
+    unfold invertIntervalList
+    rw [hs]
+    decide
+
+/-- **overlapping keep intervals are not rejected: the shared stretch is returned twice** (the model mirrors the
+code: `readFramesAtTimes(wav, keepIntervals=[(0.25, 0.75), (0.5, 1.0)])` on 16 one-byte samples at 8 Hz returns
+`3 4 5 6 5 6 7 8`; "the gap" between the two is the reversed piece `(0.75, 0.5, 'delete')`).  Outside the property's
+quantifier ("lists of disjoint intervals"), but nothing in the code or its documentation asks for disjointness. -/
+theorem overlap_keep_counterexample :
+    ¬ DisjointIn [(2, 6), (4, 8)] 0 16 ∧
+    computeKeepDelete 0 16 (some [(2, 6), (4, 8)]) [] =
+      .ok [⟨0, 2, false⟩, ⟨2, 6, true⟩, ⟨4, 8, true⟩, ⟨6, 4, false⟩, ⟨8, 16, false⟩] ∧
+    readFramesAtTimes 8 exFile 16 (some [(2, 6), (4, 8)]) [] none = .ok [3, 4, 5, 6, 5, 6, 7, 8] := by
+  have hkd := kd_keep_eval 0 16 [(2, 6), (4, 8)] _
+    [⟨0, 2, false⟩, ⟨2, 6, true⟩, ⟨4, 8, true⟩, ⟨6, 4, false⟩, ⟨8, 16, false⟩] (by simp) ex_invert_overlap
+    (by decide) (by decide)
+  refine ⟨by decide, hkd, ?_⟩
+  unfold readFramesAtTimes
+  rw [hkd]
+  decide
+
+/-- **overlapping delete intervals are not rejected either**: with a delete interval *nested* in another the audio
+between the inner end and the outer end is kept although it lies inside a deleted interval (samples 9–12 of
+`readFramesAtTimes(wav, deleteIntervals=[(0.25, 1.5), (0.5, 1.0)])`), and with a replacement generator the overlap is
+replaced twice, so the result is longer than the recording (18 instead of 16 samples for
+`deleteIntervals=[(0.25, 0.75), (0.5, 1.0)]` with `generateSilence`) -/
+theorem nested_delete_counterexample :
+    readFramesAtTimes 8 exFile 16 none [(2, 12), (4, 8)] none = .ok [1, 2, 9, 10, 11, 12, 13, 14, 15, 16] ∧
+    readFramesAtTimes 8 exFile 16 none [(2, 6), (4, 8)] (some (generateSilence 8 8 1)) =
+      .ok [1, 2, 0, 0, 0, 0, 0, 0, 0, 0, 9, 10, 11, 12, 13, 14, 15, 16] := by
+  have hkd1 := kd_delete_eval 0 16 [(2, 12), (4, 8)] _
+    [⟨0, 2, true⟩, ⟨2, 12, false⟩, ⟨4, 8, false⟩, ⟨8, 16, true⟩, ⟨12, 4, true⟩] (by simp)
+    (ex_invert_nested 12 (Or.inl rfl)) (by decide) (by decide)
+  have hkd2 := kd_delete_eval 0 16 [(2, 6), (4, 8)] _
+    [⟨0, 2, true⟩, ⟨2, 6, false⟩, ⟨4, 8, false⟩, ⟨6, 4, true⟩, ⟨8, 16, true⟩] (by simp) ex_invert_overlap
+    (by decide) (by decide)
+  constructor
+  · unfold readFramesAtTimes
+    rw [hkd1]
+    decide
+  · unfold readFramesAtTimes
+    rw [hkd2]
+    decide
+
+/-- **a time beyond the recording is not rejected when the interval holding it has another one nested inside**: the
+bounds check looks at the end of the interval that *starts* last.  As a keep list the outer interval is read up to the
+end of the recording (and the inner one a second time); as a delete list the reversed "gap" `(3.0, 0.5)` is read and
+`setpos` raises `wave.Error` instead of the documented `ArgumentError`
+(`keepIntervals / deleteIntervals = [(0.25, 3.0), (0.5, 1.0)]` on a 2 s recording) -/
+theorem nested_out_of_range_counterexample :
+    readFramesAtTimes 8 exFile 16 (some [(2, 24), (4, 8)]) [] none =
+      .ok [3, 4, 5, 6, 7, 8, 9, 10, 11, 12, 13, 14, 15, 16, 5, 6, 7, 8] ∧
+    readFramesAtTimes 8 exFile 16 none [(2, 24), (4, 8)] none = .error (.audio .WaveError) := by
+  have hkd1 := kd_keep_eval 0 16 [(2, 24), (4, 8)] _
+    [⟨0, 2, false⟩, ⟨2, 24, true⟩, ⟨4, 8, true⟩, ⟨8, 16, false⟩, ⟨24, 4, false⟩] (by simp)
+    (ex_invert_nested 24 (Or.inr rfl)) (by decide) (by decide)
+  have hkd2 := kd_delete_eval 0 16 [(2, 24), (4, 8)] _
+    [⟨0, 2, true⟩, ⟨2, 24, false⟩, ⟨4, 8, false⟩, ⟨8, 16, true⟩, ⟨24, 4, true⟩] (by simp)
+    (ex_invert_nested 24 (Or.inr rfl)) (by decide) (by decide)
+  constructor
+  · unfold readFramesAtTimes
+    rw [hkd1]
+    decide
+  · unfold readFramesAtTimes
+    rw [hkd2]
+    decide
+
+/-- the order of the list does not matter (the concrete instance of `keep_spec` / `replace_delete` for a shuffled
+list) -/
+theorem ex_unsorted :
+    DisjointIn [(10, 16), (2, 4), (4, 6)] 0 16 ∧ ¬ SortedDisjoint [(10, 16), (2, 4), (4, 6)] 0 16 ∧
+    sortIv [(10, 16), (2, 4), (4, 6)] = exKeep ∧
+    readFramesAtTimes 8 exFile 16 (some [(10, 16), (2, 4), (4, 6)]) [] none = .ok [3, 4, 5, 6, 11, 12, 13, 14, 15, 16] ∧
+    readFramesAtTimes 8 exFile 16 none [(10, 16), (2, 4), (4, 6)] none = .ok [1, 2, 7, 8, 9, 10] := by
+  have hp : [((10 : Int), (16 : Int)), (2, 4), (4, 6)].Perm exKeep := by decide
+  have hsort : sortIv [(10, 16), (2, 4), (4, 6)] = exKeep := by
+    rw [sortIv_eq_of_perm hp]
+    exact sortIv_of_sorted exKeep (by decide) (by decide)
+  have hd : DisjointIn [(10, 16), (2, 4), (4, 6)] 0 16 := by decide
+  refine ⟨hd, by decide, hsort, ?_, ?_⟩
+  · rw [keep_spec 8 (by decide) exFile 16 (by decide) _ hd, hsort]; decide
+  · rw [delete_spec 8 (by decide) exFile 16 (by decide) _ hd, hsort]; decide
 
 example : DurOk 8 exFile2 8 ∧ SortedDisjoint [(0, 3), (5, 8)] 0 8 := by decide
 /-- a duration that is the binary64 quotient rather than the exact one still satisfies `DurOk`
